@@ -6,29 +6,54 @@ the raw structures before writing and after reading and the two are compared
 (vf/props/_c09_util.py: symbol tables, generators, independent document emitters, comparison).
 
 Oracle clauses (each evaluation is one ctx.ev):
- (R) roundtrip   M --as_string/write(fmt, w)--> text --<Type>.get(fmt, r)--> M' : same number of rows, same
-                 taxon labels in the same order, same sequence lengths, same cell in every position
-                 (symbols compared upper-cased: every alphabet used is case-insensitive; continuous by ==).
-                 Any exception while writing a supported (type, format) pair or while reading the
-                 library's own output is a violation.
- (H) chain       M0 -A-> M1 -B-> M2 [-C-> M3]: every Mi equals M0 (format conversion keeps content).
- (D) data set    1-3 namespaces with matrices and tree lists, NEXUS (suppress_block_titles unset/None/False)
-                 and NeXML: same number of matrices / tree lists in the same order, every matrix equal, every
-                 matrix and tree list attached to a namespace whose label list equals its source's; each
-                 LINK resolution seen by the hook on NexusReader._get_taxon_namespace returns the namespace
-                 with the linked title.
+ (R) roundtrip   M --write(fmt, w)--> text --read(fmt, r)--> M' : same number of rows, same taxon labels in the same
+                 order, same sequence lengths, same cell in every position (symbols compared upper-cased: every alphabet
+                 used is case-insensitive; continuous by ==).  Any exception while writing a supported (type, format)
+                 pair or while reading the library's own output is a violation.  Orthogonal to (fmt, variant):
+                   * I/O route: as_string/get(data=), write(path=)/get(path=), write(file=)/get(file=), the legacy
+                     write_to_*/get_from_*, DataSet.get(.., data_type=) and the additive DataSet.read() (twice);
+                   * reader namespace: none / the source's own / a larger re-ordered one / an empty one given with
+                     taxon_namespace=: the matrix is attached to it, its rows come in its order, no taxon is added for a
+                     label it already has;
+                   * (S) the object written is unchanged by writing (model and namespace before == after);
+                   * (F) fan-out: the SAME object is written again (same or other format), every read-back is judged
+                     against the model taken before the first write.
+ (H) chain       M0 -A-> M1 -B-> M2 [-C-> M3]: every Mi equals M0 (format conversion keeps content); hostile labels
+                 where no PHYLIP is involved, rows of unequal length where only FASTA / NeXML are.
+ (D) data set    1-3 namespaces (disjoint, overlapping or with identical label lists; titles unique, repeated or differing
+                 only in letter case) with matrices and tree lists, NEXUS (suppress_block_titles unset/None/False;
+                 preserve_spaces, unquoted_underscores, simple) and NeXML, string/path/file/read() routes, optionally
+                 read into a given namespace and converted on (NEXUS <-> NeXML): same number of matrices / tree lists,
+                 every matrix equal, every matrix and tree list attached to a namespace with exactly its own labels,
+                 every row / tree node on a Taxon OF that namespace, blocks of one source namespace on ONE namespace
+                 object and blocks of different ones on different objects; each LINK resolution seen by the hook on
+                 NexusReader._get_taxon_namespace returns the namespace with the linked title when there is one.
+                 (Order of the blocks and of the labels inside a namespace: recorded, a mere re-ordering is not judged.)
  (L) CLI         dendropy-format (main() in process with patched argv/stdout; a few real subprocesses) on
                  temp files: reading its output gives the source model.
- (P) authored    harness-written NEXUS (DATA / CHARACTERS, interleaved, wrapped, MATCHCHAR, {..}/(..)
-                 tokens, several blocks), PHYLIP (strict/relaxed x sequential/wrapped/interleaved), FASTA
-                 (wrapped) and NeXML (cells/seqs, explicit <char> columns, 1-2 otus) documents, and
-                 library-written NEXUS/PHYLIP re-flowed into interleaved / wrapped layout: the parsed matrix
-                 equals the intended model ("interleaving does not matter"), and is then round-tripped (R).
- (C) construct   from_dict / item assignment build the matrix the symbols denote (symbol <-> state lookup).
+ (P) authored    harness-written NEXUS (DATA / CHARACTERS, interleaved, wrapped, MATCHCHAR, {..}/(..) tokens, several
+                 blocks, MISSING/GAP declared or left to the defaults per block), PHYLIP (strict/relaxed x sequential/
+                 wrapped/interleaved), FASTA (wrapped, rows of unequal length) and NeXML (cells/seqs, explicit <char>
+                 columns, <cell>s in any order, arbitrary <char> ids, two <states> sets, rows in another order than the
+                 otus, 1-2 otus) documents, and library-written NEXUS/PHYLIP re-flowed into interleaved / wrapped layout:
+                 the parsed matrix equals the intended model ("interleaving does not matter"; a token {AG} may come back
+                 as the named code or as an equivalent state without symbol), and is then round-tripped (R).
+ (C) construct   from_dict / item assignment build the matrix the symbols denote (symbol <-> state lookup); the same
+                 for the edits of an object history (below).
+ Object histories ("however the matrix was built"): any base route, then optionally
+                 * composed: concatenate / export / clone / copy of a matrix that was PARSED from a document (parts of a
+                   concatenation parsed into one shared namespace);
+                 * edited through the public API: row added (new_sequence / item assignment over a new taxon), cell or
+                   row replaced through the matrix's own alphabet, row deleted, taxon relabelled - the model is edited
+                   in parallel;
+                 * decorated: annotations / comments on matrix, namespace, taxa, sequences (what parsing <meta> / [&..]
+                   leaves); they are not compared, the rows must survive whatever they hold.
 
 Mechanism keys (K_* below) give one key per root cause, whatever operation exposed it; every other
 difference is keyed  <operation>:<format>|<failed clause>|<discriminator>  where the discriminator is the kind
 of the first differing cell (gap->missing, fundamental->None, value->value ...), "fewer/more", "permuted" etc.
+A K_* key is only used when the SIGNATURE of that defect is seen (e.g. K_SEMI: exactly the rows before the ';' row came
+back, or a reader's parse error; the concatenated-standard key: NeXML only), never merely because the input class is present.
 
 Soundness limits actually implemented:
  * (type, format) pairs: NeXML nucleotide/infinite must be *rejected* by the writer (checked, not judged as
@@ -36,14 +61,22 @@ Soundness limits actually implemented:
    (written as STANDARD, the typed reader refuses 'standard' explicitly) -> read back as standard, content
    compared, type change recorded-not-judged.
  * suppress_block_titles=True is never generated (documented to drop needed titles).
- * labels: non-empty, no leading/trailing whitespace, distinct up to case; full punctuation grammar only for
-   NEXUS / NeXML / FASTA(one line); PHYLIP strict <= 10 chars, relaxed no blanks, multispace no double blanks.
+ * labels: non-empty, no leading/trailing whitespace, distinct up to case, 1-9 characters and now and then 11/12/30/100;
+   full punctuation grammar only for NEXUS / NeXML / FASTA(one line); PHYLIP strict <= 10 chars, relaxed no blanks,
+   multispace no double blanks, spaces_to_underscores<->underscores_to_spaces blanks but no underscores.
+ * rows of unequal length (>= 1) only where the format has no alignment requirement (FASTA, NeXML); zero-length rows and
+   non-finite numbers are not generated (the statement does not speak of them); Python ints and -0.0 are.
  * matrices containing a multistate without symbol are not sent to PHYLIP / FASTA (no notation for them).
  * concatenate / export / clone results are taken as given (their correctness is C19 / C12): a mismatch with
    the harness' expectation is recorded-not-judged; the extracted model is the baseline either way.
- * namespace / matrix labels (block titles) are generated distinct up to case.
+ * a namespace handed to a reader holds every taxon of the source namespace (what a namespace lacking some of the
+   file's taxa does to a NEXUS TAXA block is not part of the statement).
+ * a matrix with several state alphabets and (documented) no default one gets no whole untyped rows added.
+ * NEXUS 'simple' for data sets (documented: one DATA block, no TAXA block) only with a single matrix; taxa that no row /
+   tree mentions need not come back.
  * state objects added to the library's *global* fixed alphabets by a parse ({..} / (..) without a named
-   code) are removed again at the end of every case so that cases stay independent (recorded-not-judged).
+   code) are removed again at the end of every case so that cases stay independent (recorded-not-judged); their
+   cross-case effect is judged in one directed history per data type (dna, rna, protein).
 """
 import collections
 import copy
@@ -61,13 +94,18 @@ from . import _c09_util as U
 
 PROP = "C09"
 LEVEL = "exploration"
-TECHNIQUE = "reference matrix model compared around the real writers/readers, hooks on FORMAT / <format> / LINK"
-LEVEL_TEXT = "held on the generated matrices, documents, data sets and CLI conversions listed in 'rule'"
+TECHNIQUE = ("reference matrix model compared around the real writers/readers (every I/O route, reader-namespace mode, "
+             "object history), source-unchanged and namespace-identity checks, hooks on FORMAT / <format> / LINK")
+LEVEL_TEXT = "held on the generated matrices, object histories, documents, data sets and CLI conversions listed in 'rule'"
 LEVEL_NOTE = "exploration: workloads are generated (exhaustive only over the small grid type x format x variant x dims)"
 RULE = ("cases = directed witnesses + grid(type x format x variant x {1x1,1xN,Nx1,RxC}) + random roundtrip "
-        "(type, construction route, format variant, labels, dims, symbol style) + conversion chains of 2-3 formats + "
-        "data sets (1-3 namespaces, matrices, tree lists, block-title option) + dendropy-format conversions + "
-        "harness-authored / re-flowed documents; non-trivial = matrix with >= 2 cells; distinct = distinct "
+        "(type, construction route [from_dict / setitem / parsed_* / concat-export-clone over dictionary or parsed sources], "
+        "post-edits, decorations, format variant, I/O route, reader namespace, labels incl. 11-100 chars, dims incl. "
+        "unequal row lengths for FASTA/NeXML, symbol style) with fan-out of the same object to further formats + "
+        "conversion chains of 2-3 formats + data sets (1-3 namespaces incl. identical label lists and titles differing in "
+        "case, matrices, tree lists, block-title option, writer options, I/O route, NEXUS<->NeXML conversion) + "
+        "dendropy-format conversions + harness-authored / re-flowed documents (NeXML cell order / ids / states sets, "
+        "NEXUS MISSING/GAP declarations); non-trivial = matrix with >= 2 cells; distinct = distinct "
         "(kind, type, format, variant, route, model)")
 REACH = [
     "nexuswriter:NexusWriter._write_char_block", "nexuswriter:NexusWriter._compose_format_terms",
@@ -85,6 +123,10 @@ REACH = [
     "charmatrixmodel:CharacterMatrix.from_dict", "charmatrixmodel:CharacterMatrix.concatenate",
     "charmatrixmodel:CharacterMatrix.export_character_indices",
     "datasetmodel:DataSet._parse_and_create_from_stream", "dendropy_format:convert",
+    "datasetmodel:DataSet._parse_and_add_from_stream", "charmatrixmodel:CharacterMatrix.new_sequence",
+    "charmatrixmodel:CharacterMatrix.__delitem__", "charmatrixmodel:CharacterDataSequence.set_at",
+    "nexuswriter:NexusWriter._write_item_annotations", "nexuswriter:NexusWriter._get_block_title",
+    "nexmlwriter:NexmlWriter._write_annotations_and_comments",
 ]
 MIN_EVENTS = {
     "roundtrip-checked": (3000, 30000), "chain-step-checked": (600, 7000), "dataset-block-checked": (700, 7000),
@@ -96,10 +138,17 @@ MIN_EVENTS = {
     "hook:NexmlWriter._write_format_section:return": (800, 8000),
     "hook:NexusReader._parse_format_statement:return": (1500, 14000),
     "hook:NexusReader._get_taxon_namespace:return": (1500, 14000),
+    "source-unchanged-checked": (8000, 32000), "reader-namespace-checked": (3500, 15000), "fanout-checked": (1500, 7500),
+    "post-edit-checked": (1300, 6000), "composed-route-over-parsed-source": (700, 3500),
+    "decorated-matrix-written": (500, 2200), "namespace-sharing-checked": (1000, 3200),
+    "dataset-chain-step-checked": (220, 800),
 }
 ASSUMPTIONS = [
     "the model is read from the raw structures (_taxon_sequence_map, _character_values, StateIdentity._symbol) in "
-    "taxon-namespace order, which is the documented iteration order of a CharacterMatrix",
+    "taxon-namespace order, which is the documented iteration order of a CharacterMatrix (rows held for taxa outside the "
+    "namespace are appended so that they cannot go unnoticed)",
+    "a reader given taxon_namespace= lists the rows in that namespace's order (documented iteration order)",
+    "annotations / comments are metadata: attached, written, not compared",
     "state symbols are compared upper-cased (all generated alphabets are case-insensitive)",
     "reader options are the documented counterparts of the writer options (strict<->strict, "
     "unquoted_underscores+preserve_spaces<->preserve_underscores, default_state_alphabet for PHYLIP/FASTA standard data)",
@@ -111,8 +160,8 @@ FORMATS = ("nexus", "phylip", "fasta", "nexml")
 VARIANTS = {
     "nexus": ("default", "simple", "preserve_spaces", "uu", "reflow", "sbtF", "sbtN", "same_ns", "path"),
     "phylip": ("strict", "relaxed", "multispace", "strict_il", "relaxed_il", "reflow_il", "reflow_il_strict",
-               "reflow_wrap", "same_ns"),
-    "fasta": ("default", "nowrap", "same_ns"),
+               "reflow_wrap", "same_ns", "s2u", "s2u_il"),
+    "fasta": ("default", "nowrap", "same_ns", "width"),
     "nexml": ("cells", "seqs", "same_ns"),
 }
 ROUTES = ("from_dict", "from_dict_ns", "setitem", "concat", "export_idx", "export_subset", "clone_ctor",
@@ -128,6 +177,8 @@ DIRECTED = (
     "gap-missing-every-type", "two-otus-nexml", "standard-custom-alphabet-export", "cli-subprocess-nexus-phylip", "cli-subprocess-fasta-nexus",
     "cli-subprocess-phylip-nexml", "special-chars-each-position", "digit-labels", "fasta-wrap-boundary",
     "standard-concatenated-nexml", "history-unnamed-multistate-pollutes-global-alphabet",
+    "phylip-interleaved-into-namespace", "parsed-then-row-added", "nexml-cells-out-of-column-order",
+    "block-titles-differing-in-case", "annotated-objects",
 )
 
 
@@ -190,13 +241,23 @@ def cell_of(v, continuous):
 
 
 def extract(m):
+    """rows in namespace order (the documented iteration order); a row held for a Taxon that is not in the matrix's
+    namespace - invisible to that iteration - is listed at the end so that it cannot go unnoticed"""
     cont = m.data_type == "continuous"
     out = []
+    seen = 0
     for t in m.taxon_namespace:
         seq = m._taxon_sequence_map.get(t)
         if seq is None:
             continue
+        seen += 1
         out.append([t.label, [cell_of(v, cont) for v in seq._character_values]])
+    if seen != len(m._taxon_sequence_map):
+        inside = set(id(t) for t in m.taxon_namespace)
+        for t, seq in m._taxon_sequence_map.items():
+            if id(t) not in inside:
+                out.append(["<row-of-a-taxon-outside-the-namespace>%s" % (t.label,),
+                            [cell_of(v, cont) for v in seq._character_values]])
     return out
 
 
@@ -272,9 +333,15 @@ def install_hooks(ctx, hooks, S):
         if exc is None and title is not None and obj.attached_taxon_namespace is None:
             ctx.ev("link-resolution-checked")
             S.links.append((title, result.label))
-            if result.label is None or result.label.upper() != title.upper():
+            # (the reader documents that a TAXA block's TITLE becomes the label of its namespace; judged only when the
+            # reader does hold a namespace labelled with the title asked for, and returned another one)
+            others = [t for t in getattr(obj, "_taxon_namespaces", ()) if t is not result and t.label is not None
+                      and t.label.upper() == title.upper()]
+            if (result.label is None or result.label.upper() != title.upper()) and others:
                 ctx.violation("dataset-readback:nexus|link-resolution|namespace-with-other-title",
                               "LINK TAXA=%r resolved to the namespace titled %r" % (title, result.label))
+            elif result.label is None or result.label.upper() != title.upper():
+                ctx.note("link-resolved-to-namespace-labelled-otherwise(no-namespace-with-that-title-known)")
     hooks.install(nexusreader.NexusReader, "_get_taxon_namespace", post=post_link, outermost_only=False)
 
 
@@ -310,6 +377,9 @@ def authored_text(rng, fmt, dtype, labels, rows, alphabet, opts=None):
     if fmt == "nexus":
         o = {"simple": rng.random() < 0.4, "interleave": 0, "wrap": 0, "matchchar": rng.random() < 0.3,
              "comments": rng.random() < 0.3}
+        if dtype != "continuous" and rng.random() < 0.15 and not any(
+                (not isinstance(c, list)) and c == "-" for r in rows for c in r):
+            o["declare"] = False      # no MISSING= / GAP= terms: '?' is the default missing symbol (rows without gaps only)
         ncols = len(rows[0])
         r = rng.random()
         if r < 0.4 and ncols > 1:
@@ -339,9 +409,10 @@ def authored_text(rng, fmt, dtype, labels, rows, alphabet, opts=None):
         return U.emit_fasta(rng, dtype, labels, rows, w), {}, {"width": w}
     if fmt == "nexml":
         seqs = rng.random() < 0.5
+        layout = U.gen_nexml_layout(rng, seqs)
         text = U.emit_nexml(rng, dtype, [("ns0", opts.get("nslabel"), labels)], [("ns0", "m", alphabet, labels, rows)],
-                            seqs=seqs)
-        return text, {}, {"seqs": seqs}
+                            seqs=seqs, layout=layout)
+        return text, {}, {"seqs": seqs, "layout": layout}
     raise ValueError(fmt)
 
 
@@ -351,6 +422,8 @@ def label_style_for(fmt, variant, rng):
             return "strict10"
         if variant == "multispace":
             return "singlespace"
+        if variant in ("s2u", "s2u_il"):
+            return "blanks-no-underscore"
         return "nospace" if rng.random() < 0.6 else "simple"
     if variant == "reflow":
         return "simple"
@@ -364,13 +437,57 @@ def label_style_for(fmt, variant, rng):
     return "hostile"
 
 
-def build_matrix(ctx, rng, dtype, labels, rows, alphabet, route, opts=None):
-    """-> (matrix, state alphabet or None, expected model or None when the route's result is taken as given).
-    Returns None when the route does not apply."""
+COMPOSED_ROUTES = ("concat", "export_idx", "export_subset", "clone_ctor", "clone2", "deepcopy", "ns_scoped_copy")
+STRICT_VARIANTS = ("strict", "strict_il", "reflow_il_strict")
+
+
+def base_admissible(base, dtype, labels, opts):
+    """can the source of a composed route be parsed from a harness-written document of that format?"""
+    fmt = base[len("parsed_"):]
+    if U.SUPPORT[fmt].get(dtype) != 1:
+        return False
+    if fmt == "nexml" and dtype == "standard":
+        return False          # (the NeXML emitter writes canonical symbols only)
+    if fmt == "phylip":
+        if (opts or {}).get("strict"):
+            return all(len(l) <= 10 and "\t" not in l for l in labels)
+        if (opts or {}).get("multispace"):
+            return all("  " not in l and "\t" not in l for l in labels)
+        return all(" " not in l and "\t" not in l for l in labels)
+    if fmt == "fasta":
+        return all("\n" not in l for l in labels)
+    return True
+
+
+def make_source(ctx, rng, dtype, labels, rows, alphabet, base, opts, ns=None, label=None):
+    """source matrix of a composed route (concatenate / export / clone ...): built from a dictionary or - object history -
+    parsed from a harness-written document (``base`` = parsed_<format>), into ``ns`` when given.  -> (matrix, sa) or None"""
+    if base and base != "from_dict" and base_admissible(base, dtype, labels, opts) \
+            and all(len(r) == len(rows[0]) for r in rows):
+        built = build_matrix(ctx, rng, dtype, labels, rows, alphabet, base, opts if base == "parsed_phylip" else None,
+                             reader_ns=ns)
+        if built is None:
+            return None
+        ctx.ev("composed-route-over-parsed-source")
+        if label:
+            built[0].label = label
+        return built[0], built[1]
+    kw = {}
+    if ns is not None:
+        kw["taxon_namespace"] = ns
+    if label:
+        kw["label"] = label
+    return from_dict(dtype, labels, rows, alphabet, **kw)
+
+
+def build_matrix(ctx, rng, dtype, labels, rows, alphabet, route, opts=None, base=None, reader_ns=None):
+    """-> (matrix, state alphabet or None, expected model or None when the route's result is taken as given, judged).
+    Returns None when the route does not apply.  base: how the source of a composed route is made (make_source);
+    reader_ns: namespace a parsed_* route reads into."""
     d = dp()
     cls = matrix_class(dtype)
     exp = U.expected_model(dtype, labels, rows, alphabet)
-    ncols = len(rows[0])
+    ncols = max(len(r) for r in rows)
     if route == "from_dict":
         m, sa = from_dict(dtype, labels, rows, alphabet)
         return m, sa, exp, True
@@ -400,6 +517,13 @@ def build_matrix(ctx, rng, dtype, labels, rows, alphabet, route, opts=None):
         sa = make_alphabet(alphabet) if dtype == "standard" else None
         parts = []
         for k, (a, b) in enumerate(zip([0] + cut, cut + [ncols])):
+            if base and base != "from_dict":
+                src = make_source(ctx, rng, dtype, labels, [r[a:b] for r in rows], alphabet, base, opts, ns=ns,
+                                  label="part%d" % k)
+                if src is None:
+                    return None
+                parts.append(src[0])
+                continue
             kw = {"taxon_namespace": ns, "label": "part%d" % k}
             if sa is not None:
                 kw["default_state_alphabet"] = sa
@@ -417,7 +541,10 @@ def build_matrix(ctx, rng, dtype, labels, rows, alphabet, route, opts=None):
             for j, k in enumerate(keep):
                 row[k] = r[j]
             big.append(row)
-        src, sa = from_dict(dtype, labels, big, alphabet)
+        src = make_source(ctx, rng, dtype, labels, big, alphabet, base, opts)
+        if src is None:
+            return None
+        src, sa = src
         if route == "export_idx":
             m = src.export_character_indices(keep)
         else:
@@ -425,7 +552,10 @@ def build_matrix(ctx, rng, dtype, labels, rows, alphabet, route, opts=None):
             m = src.export_character_subset("keep")
         return m, sa, exp, False
     if route in ("clone_ctor", "clone2", "deepcopy", "ns_scoped_copy"):
-        src, sa = from_dict(dtype, labels, rows, alphabet)
+        src = make_source(ctx, rng, dtype, labels, rows, alphabet, base, opts)
+        if src is None:
+            return None
+        src, sa = src
         if route == "clone_ctor":
             m = cls(src)
         elif route == "clone2":
@@ -446,26 +576,50 @@ def build_matrix(ctx, rng, dtype, labels, rows, alphabet, route, opts=None):
         sa = make_alphabet(alphabet) if dtype == "standard" else None
         if sa is not None and fmt in ("phylip", "fasta"):
             rkw = dict(rkw, default_state_alphabet=sa)
+        ns_size = 0
+        if reader_ns is not None:
+            rkw = dict(rkw, taxon_namespace=reader_ns)
+            ns_size = len(reader_ns)
+        il_into_ns = fmt == "phylip" and rkw.get("interleaved") and ns_size > 0
         try:
             m = cls.get(data=text, schema=fmt, **rkw)
         except core.CaseTimeout:
             raise
         except Exception as e:
             ctx.ev("authored-parse-checked")
-            if fmt == "nexus" and ";" in labels:
+            detail = {"text": text[:1500], "reader": repr(rkw), "layout": desc, "error": core.exc_brief(e)}
+            if il_into_ns and is_parse_error(e):
+                ctx.violation(K_PHY_IL_NS, "interleaved PHYLIP read into a namespace that already has %d taxa raised %s" % (
+                    ns_size, core.exc_brief(e)), detail)
+                return None
+            if fmt == "nexus" and ";" in labels and is_parse_error(e):
                 ctx.violation(K_SEMI, "quoted label ';' taken for the end of the "
                               "statement (%s)" % core.exc_brief(e), {"text": text[:800]})
                 return None
             ctx.violation("parse-authored:%s|unexpected-exception|%s" % (fmt, core.exc_key(e)),
-                          "reading a harness-written %s document raised %s" % (fmt, core.exc_brief(e)),
-                          {"text": text[:1500], "reader": repr(rkw), "layout": desc})
+                          "reading a harness-written %s document raised %s" % (fmt, core.exc_brief(e)), detail)
             return None
         ctx.ev("authored-parse-checked")
         got = extract(m)
-        diff = U.compare_models(exp, got, dtype, alphabet)
-        if diff is not None and fmt == "nexus" and ";" in labels and diff[0] != "cell":
+        want = exp
+        if reader_ns is not None:
+            pos = dict((t.label, k) for k, t in enumerate(reader_ns))
+            want = sorted(exp, key=lambda r: pos.get(r[0], len(pos)))
+        diff = U.compare_models(want, got, dtype, alphabet)
+        if diff is not None and il_into_ns:
+            ctx.violation(K_PHY_IL_NS, "interleaved PHYLIP read into a namespace that already has %d taxa: the lines of the "
+                          "later pages are assigned by position in the namespace (%s)" % (ns_size, diff[0]),
+                          {"diff": diff[2], "text": text[:800]})
+            return None
+        if diff is not None and fmt == "nexus" and diff[0] == "row-count" and semi_signature(labels, [r[0] for r in got]):
             ctx.violation(K_SEMI, "quoted label ';' taken for the end of the statement",
                           {"diff": diff[2], "text": text[:800]})
+            return None
+        if diff is not None and fmt == "nexml" and dtype == "continuous" and not desc.get("seqs") \
+                and desc.get("layout", {}).get("shuffle_cells") and U.compare_models(
+                    U.rows_in_document_order(want, desc["layout"].get("_cell_orders"), 0), got, dtype, alphabet) is None:
+            ctx.violation(K_NEXML_CONT_ORDER, "continuous <cell> elements are stored in the order in which the row lists "
+                          "them; the column named by char= is ignored", {"diff": diff[2], "text": text[:1500]})
             return None
         if diff is not None:
             ctx.violation("parse-authored:%s|%s|%s" % (fmt, diff[0], diff[1]),
@@ -474,7 +628,7 @@ def build_matrix(ctx, rng, dtype, labels, rows, alphabet, route, opts=None):
             return None
         if fmt in ("nexus", "nexml") and dtype == "standard":
             sa = None     # alphabet comes from the document
-        return m, sa, exp, False
+        return m, sa, want, False
     raise ValueError(route)
 
 
@@ -496,6 +650,9 @@ def check_construct(ctx, m, exp, dtype, alphabet, route, judged):
 
 # ------------------------------------------------------------------------------------------------
 # writing, reading back, judging
+FASTA_WIDTHS = [7]      # wrap_width of the "width" variant: re-drawn per case (run_case)
+
+
 def variant_options(fmt, variant):
     """(writer kwargs, reader kwargs) of a format variant"""
     if fmt == "nexus":
@@ -511,9 +668,13 @@ def variant_options(fmt, variant):
                 "relaxed_il": ({}, {"interleaved": True}),
                 "reflow_il": ({}, {"interleaved": True}),
                 "reflow_il_strict": ({"strict": True}, {"strict": True, "interleaved": True}),
-                "reflow_wrap": ({}, {}), "same_ns": ({}, {})}[variant]
+                "reflow_wrap": ({}, {}), "same_ns": ({}, {}),
+                # the documented counterpart pair that carries labels with blanks through relaxed PHYLIP
+                "s2u": ({"spaces_to_underscores": True}, {"underscores_to_spaces": True}),
+                "s2u_il": ({"spaces_to_underscores": True}, {"underscores_to_spaces": True, "interleaved": True})}[variant]
     if fmt == "fasta":
-        return {"default": ({}, {}), "nowrap": ({"wrap": False}, {}), "same_ns": ({}, {})}[variant]
+        return {"default": ({}, {}), "nowrap": ({"wrap": False}, {}), "same_ns": ({}, {}),
+                "width": ({"wrap_width": FASTA_WIDTHS[0]}, {})}[variant]
     if fmt == "nexml":
         return {"cells": ({}, {}), "seqs": ({"markup_as_sequences": True}, {}),
                 "same_ns": ({"markup_as_sequences": True}, {})}[variant]
@@ -527,6 +688,8 @@ def labels_ok_for(fmt, variant, labels):
             return all(len(l) <= 10 and "\t" not in l for l in labels)
         if variant == "multispace":
             return all("  " not in l and "\t" not in l for l in labels)
+        if variant in ("s2u", "s2u_il"):
+            return all("_" not in l and "\t" not in l for l in labels)
         return all(" " not in l and "\t" not in l for l in labels)
     if variant == "reflow":
         return all(U.SIMPLE_LABEL_RE.match(l) for l in labels)
@@ -535,6 +698,7 @@ def labels_ok_for(fmt, variant, labels):
 
 # mechanism keys (one per root cause, whatever operation exposed it)
 K_SHIFT = "roundtrip:nexml|rows-shifted-by-None-padding|fresh-char-id-per-cell"
+K_SHIFT_MIXED = "roundtrip:nexml|rows-shifted-by-None-padding|row-without-character-types-in-matrix-with-explicit-columns"
 K_JSON = "roundtrip:nexml|taxon-label|label-attribute-escaped-as-json-not-xml"
 K_NEXML_UNNAMED = "roundtrip:nexml|unnamed-multistate|no-notation(symbol-None-or-member-list)"
 K_SEMI = "roundtrip:nexus|row-count|quoted-semicolon-label-ends-the-statement"
@@ -542,13 +706,21 @@ K_COMMAS = "roundtrip:nexus|unnamed-multistate|member-symbols-written-with-comma
 K_EQUATE = "roundtrip:nexus|standard-named-multistate|EQUATE-is-repr-of-a-set-and-is-never-parsed"
 K_LOST = "roundtrip:copied-standard-matrix|state_alphabets-reset-by-constructor|cells-keep-old-states"
 K_LOST_CONCAT = "roundtrip:concatenated-standard-matrix|cells-refer-to-state-objects-of-the-source-alphabets"
+K_PHY_IL_NS = "readback:phylip|interleaved-into-non-empty-namespace|pages-indexed-by-namespace-position"
+K_CASE_TITLES = "dataset-readback:nexus|MultipleBlockWithSameTitleError|titles-differ-only-in-letter-case"
+K_BRACKET = "roundtrip:nexus|annotation-or-comment-with-unbalanced-bracket|written-inside-a-comment-unescaped"
+K_NEXML_CONT_ORDER = "parse-authored:nexml|continuous-cells-stored-in-document-order|char-attribute-ignored"
 
 
-def k_lost(info):
-    """which of the two 'cells reference states outside the matrix's own alphabets' mechanisms: the (repaired) constructor
-    reset, or concatenate(), whose result keeps a fresh default alphabet while its cells are the sources' state objects"""
-    if isinstance(info, dict) and info.get("route") == "concat":
-        return K_LOST_CONCAT
+def k_lost(info, fmt=None):
+    """which of the two 'cells reference states outside the matrix's own alphabets' mechanisms applies, or None:
+    the (repaired) constructor reset - any format -, or concatenate(), whose result keeps a fresh default alphabet
+    while its cells are the sources' state objects; that recorded defect is about NeXML (the writer looks every cell
+    up in the <states> it defined), the other formats write symbols and are judged with the generic keys"""
+    if not (isinstance(info, dict) and info.get("alphabets_lost")):
+        return None
+    if info.get("route") == "concat":
+        return K_LOST_CONCAT if fmt == "nexml" else None
     return K_LOST
 
 
@@ -560,14 +732,57 @@ def nexus_involved(fmt, info):
     return fmt == "nexus" or info.get("from") == "nexus" or "nexus" in (info.get("chain") or ())
 
 
+def is_parse_error(exc):
+    from dendropy.utility import error
+    return isinstance(exc, error.DataParseError)
+
+
+def semi_signature(src_labels, got_labels):
+    """signature of the recorded ';' defect: the statement (TAXLABELS / MATRIX) ended where the quoted ';' stood -
+    exactly the rows written before it are there (in any order when the reader was given a namespace)"""
+    if ";" not in src_labels or ";" in got_labels:
+        return False
+    k = list(src_labels).index(";")
+    return sorted(got_labels) == sorted(src_labels[:k])
+
+
+def semi_signature_ns(want, nsl):
+    """same for a namespace: the labels declared before ';' come first (labels met later in MATRIX / TREE statements may follow)"""
+    if ";" not in want or ";" in nsl:
+        return False
+    k = list(want).index(";")
+    return list(nsl[:k]) == list(want[:k])
+
+
+def unbalanced_brackets(s):
+    depth = 0
+    for c in str(s):
+        if c == "[":
+            depth += 1
+        elif c == "]":
+            depth -= 1
+            if depth < 0:
+                return True
+    return depth != 0
+
+
+def phylip_il_ns_signature(fmt, info):
+    return fmt == "phylip" and info.get("reader_interleaved") and info.get("reader_ns_size_before", 0) > 0
+
+
 def classify_read_error(fmt, exc, src_model, text, info):
     """mechanism key suffix for a read-back exception, or None for the generic key"""
     name = type(exc).__name__
     msg = str(exc)
     labels = [r[0] for r in src_model] + list(info.get("other_labels", ()))
-    if info.get("alphabets_lost"):
-        return k_lost(info)
-    if ";" in labels and nexus_involved(fmt, info):
+    k = k_lost(info, fmt)
+    if k is not None:
+        return k
+    if phylip_il_ns_signature(fmt, info) and is_parse_error(exc):
+        return K_PHY_IL_NS
+    if fmt == "nexus" and info.get("decor_unbalanced"):
+        return K_BRACKET
+    if ";" in labels and nexus_involved(fmt, info) and is_parse_error(exc):
         return K_SEMI
     if fmt == "nexml" and name == "ParseError" and any(c in l for l in labels for c in '"<&'):
         return K_JSON
@@ -577,7 +792,7 @@ def classify_read_error(fmt, exc, src_model, text, info):
     if fmt == "nexus" and name == "InvalidCharacterStateSymbolError" and info.get("named_multistate") \
             and 'EQUATE="{' in text:
         return K_EQUATE
-    if fmt == "nexml" and (has_unnamed(src_model) or info.get("alphabet_has_unnamed")) and "'None'" in msg:
+    if fmt == "nexml" and has_unnamed(src_model) and "'None'" in msg:
         return K_NEXML_UNNAMED
     if fmt == "nexml" and has_unnamed(src_model) and ("State with symbol '{'" in msg or "State with symbol '('" in msg):
         return K_NEXML_UNNAMED
@@ -590,8 +805,17 @@ def judge_models(ctx, op, fmt, dtype, alphabet, src_model, got, S, info, text):
     if diff is None:
         return True
     detail = {"diff": diff[2], "info": info, "text": text[:1200] if text else None}
-    if info.get("alphabets_lost"):
-        ctx.violation(k_lost(info), "matrix read back from %s differs (%s)" % (fmt, diff[0]), detail)
+    k = k_lost(info, fmt)
+    if k is not None:
+        ctx.violation(k, "matrix read back from %s differs (%s)" % (fmt, diff[0]), detail)
+        return False
+    if fmt == "nexus" and info.get("decor_unbalanced"):
+        ctx.violation(K_BRACKET, "an annotation / comment value with unbalanced square brackets is written inside a NEXUS "
+                      "comment as it is (%s)" % diff[0], detail)
+        return False
+    if phylip_il_ns_signature(fmt, info):
+        ctx.violation(K_PHY_IL_NS, "interleaved PHYLIP read into a namespace that already has taxa: the lines of the later "
+                      "pages are assigned by position in the namespace, not in the first page (%s)" % diff[0], detail)
         return False
     # -- NeXML: taxon labels that came back in their JSON-escaped spelling
     if fmt == "nexml" and diff[0] in ("taxon-label", "taxon-order"):
@@ -609,6 +833,18 @@ def judge_models(ctx, op, fmt, dtype, alphabet, src_model, got, S, info, text):
     # -- NeXML: one fresh <char> id per cell -> later rows padded with None
     if fmt == "nexml" and diff[0] == "sequence-length" and S.nexml_cols is not None \
             and S.nexml_cols[0] > S.nexml_cols[1] and len(got) >= 2:
+        if info.get("mixed_character_types"):
+            # rows parsed with explicit columns + rows added later without character types: the writer declares a second
+            # set of <char> columns for the latter
+            stripped, padded = U.strip_leading_none(got, src_model)
+            if padded:
+                ctx.violation(K_SHIFT_MIXED,
+                              "writer declared %d <char> columns for sequences of length %d: the rows whose cells carry no "
+                              "character type got columns of their own and read back behind %d None cells" % (
+                                  S.nexml_cols[0], S.nexml_cols[1], padded[0][1]), detail)
+                judge_models(ctx, op, fmt, dtype, alphabet, src_model, stripped, S, dict(info, mixed_character_types=False),
+                             text)
+                return False
         stripped, sig = U.strip_none_padding(got)
         if sig:
             ctx.violation(K_SHIFT,
@@ -616,7 +852,8 @@ def judge_models(ctx, op, fmt, dtype, alphabet, src_model, got, S, info, text):
                           "i*ncols leading None cells" % (S.nexml_cols[0], S.nexml_cols[1]), detail)
             judge_models(ctx, op, fmt, dtype, alphabet, src_model, stripped, S, info, text)
             return False
-    if nexus_involved(fmt, info) and diff[0] != "cell" and any(r[0] == ";" for r in src_model):
+    if nexus_involved(fmt, info) and diff[0] == "row-count" and semi_signature(
+            info.get("document_order") or [r[0] for r in src_model], [r[0] for r in got]):
         ctx.violation(K_SEMI,
                       "taxon label ';' is written quoted but the reader takes it for the end of the statement", detail)
         return False
@@ -641,36 +878,94 @@ def alphabets_cover_cells(m):
     return True
 
 
+def mixed_character_types(m):
+    """some cells carry a character type (column definition), others of the same matrix do not (recorded for the key only)"""
+    some = none = False
+    for seq in m._taxon_sequence_map.values():
+        for t in seq._character_types:
+            if t is None:
+                none = True
+            else:
+                some = True
+        if some and none:
+            return True
+    return False
 
 
-def write_obj(ctx, obj, fmt, wkw, op, detail, tmpdir=None, src_model=None):
+# I/O routes: how the text leaves and enters the library (every route for every format)
+IO_ROUTES = ("string", "path", "file", "legacy", "dataset-get", "dataset-read")
+
+
+def pick_io(rng):
+    return "string" if rng.random() < 0.6 else rng.choice(IO_ROUTES[1:])
+
+
+def write_obj(ctx, obj, fmt, wkw, op, detail, tmpdir=None, src_model=None, io="string"):
     """text written by the library, or None (exception reported)"""
     try:
-        if tmpdir is not None:
+        if tmpdir is not None and io in ("path", "file", "legacy", "legacy-stream"):
             p = os.path.join(tmpdir, "w.%s" % fmt)
-            obj.write(path=p, schema=fmt, **wkw)
-            with open(p) as f:
+            if io == "path":
+                obj.write(path=p, schema=fmt, **wkw)
+            elif io == "file":
+                with open(p, "w", encoding="utf-8") as f:
+                    obj.write(file=f, schema=fmt, **wkw)
+            elif io == "legacy":
+                obj.write_to_path(p, fmt, **wkw)
+            else:
+                with open(p, "w", encoding="utf-8") as f:
+                    obj.write_to_stream(f, fmt, **wkw)
+            with open(p, encoding="utf-8") as f:
                 return f.read()
         return obj.as_string(fmt, **wkw)
     except core.CaseTimeout:
         raise
     except Exception as e:
-        if isinstance(detail, dict) and detail.get("alphabets_lost"):
-            ctx.violation(k_lost(detail), "writing raised %s" % core.exc_brief(e), detail)
+        k = k_lost(detail, fmt) if isinstance(detail, dict) else None
+        if k is not None:
+            ctx.violation(k, "writing raised %s" % core.exc_brief(e), detail)
         else:
             ctx.unexpected("write:%s:%s" % (op, fmt), e, detail)
         return None
 
 
-def read_matrix(ctx, dtype, text, fmt, rkw, op, src_model, info, read_as=None, tmpdir=None):
+def read_matrices(ctx, cls, text, fmt, rkw, dtype, io="string", tmpdir=None):
+    """the matrices the library makes of ``text`` through the I/O route (exceptions propagate)"""
+    d = dp()
+    if io in ("dataset-get", "dataset-read"):
+        kw = dict(rkw)
+        if fmt in ("phylip", "fasta"):
+            kw["data_type"] = cls.data_type       # these formats do not name their data type
+        if io == "dataset-get":
+            ds = d.DataSet.get(data=text, schema=fmt, **kw)
+            return list(ds.char_matrices), ds
+        ds = d.DataSet()
+        if "taxon_namespace" in kw:
+            ds.attach_taxon_namespace(kw.pop("taxon_namespace"))
+        ds.read(data=text, schema=fmt, **kw)
+        ds.read(data=text, schema=fmt, **kw)          # read() adds to what the data set holds
+        return list(ds.char_matrices), ds
+    if tmpdir is not None and io in ("path", "file", "legacy", "legacy-stream"):
+        p = os.path.join(tmpdir, "r.%s" % fmt)
+        with open(p, "w", encoding="utf-8") as f:
+            f.write(text)
+        if io == "path":
+            return [cls.get(path=p, schema=fmt, **rkw)], None
+        if io == "legacy":
+            return [cls.get_from_path(p, fmt, **rkw)], None
+        with open(p, encoding="utf-8") as f:
+            if io == "file":
+                return [cls.get(file=f, schema=fmt, **rkw)], None
+            return [cls.get_from_stream(f, fmt, **rkw)], None
+    if io == "legacy":
+        return [cls.get_from_string(text, fmt, **rkw)], None
+    return [cls.get(data=text, schema=fmt, **rkw)], None
+
+
+def read_matrix(ctx, dtype, text, fmt, rkw, op, src_model, info, read_as=None, tmpdir=None, io="string"):
     cls = matrix_class(read_as or dtype)
     try:
-        if tmpdir is not None:
-            p = os.path.join(tmpdir, "r.%s" % fmt)
-            with open(p, "w") as f:
-                f.write(text)
-            return cls.get(path=p, schema=fmt, **rkw)
-        return cls.get(data=text, schema=fmt, **rkw)
+        ms, ds = read_matrices(ctx, cls, text, fmt, rkw, dtype, io, tmpdir)
     except core.CaseTimeout:
         raise
     except Exception as e:
@@ -681,10 +976,76 @@ def read_matrix(ctx, dtype, text, fmt, rkw, op, src_model, info, read_as=None, t
         else:
             ctx.unexpected("readback:%s:%s" % (op, fmt), e, detail)
         return None
+    if io == "dataset-read" and len(ms) == 2:
+        a, b = extract(ms[0]), extract(ms[1])
+        if a != b:
+            diff = U.compare_models(a, b, dtype, info.get("alphabet")) or ("content", "differs", None)
+            ctx.violation("%s:%s|additive-read|second-read-of-the-same-document-gives-another-matrix|%s" % (op, fmt, diff[0]),
+                          "DataSet.read() of the same document twice gave two different matrices", {"info": info, "diff": diff[2]})
+            return None
+        ms = ms[:1]
+    if len(ms) != 1 and fmt == "nexus" and info.get("decor_unbalanced"):
+        ctx.violation(K_BRACKET, "an annotation / comment value with unbalanced square brackets is written inside a NEXUS "
+                      "comment as it is: %d matrices read" % len(ms), {"info": info, "text": text[:1200]})
+        return None
+    if len(ms) != 1:
+        ctx.violation("%s:%s|matrix-count|%s" % (op, fmt, io), "a document holding one matrix gave %d matrices through %s" % (
+            len(ms), io), {"info": info, "text": text[:1200]})
+        return None
+    m2 = ms[0]
+    if io.startswith("dataset") and not isinstance(m2, cls):
+        # the data-set reader chooses the matrix class from the document (or data_type=)
+        if not (read_as == "standard" or (info.get("type") in ("restriction", "infinite") and fmt == "nexus")):
+            ctx.violation("%s:%s|data-type|%s->%s" % (op, fmt, dtype, m2.data_type), "DataSet reader built a %s for %s data" % (
+                type(m2).__name__, dtype), {"info": info})
+            return None
+    return m2
 
 
-def roundtrip(ctx, rng, S, m, sa, src_model, dtype, alphabet, fmt, variant, op="roundtrip", info=None, tmp=None):
-    """(R) one write + read-back + comparison.  Returns the read-back matrix (or None)."""
+READER_NS_MODES = (None, None, None, None, None, None, "same", "same", "superset", "empty")
+
+
+def reader_namespace(rng, m, src_model, mode):
+    """-> (namespace handed to the reader, its labels now, the model the read-back matrix must have).
+    The rows of a matrix come in the order of its namespace (documented), so a namespace that lists the taxa in another
+    order re-orders the rows accordingly."""
+    d = dp()
+    if mode == "same":
+        ns = m.taxon_namespace
+        return ns, [t.label for t in ns], src_model
+    if mode == "empty":
+        return d.TaxonNamespace(), [], src_model
+    # every taxon of the source namespace (a taxa section lists them all) + unrelated ones, in another order
+    order = [t.label for t in m.taxon_namespace] + ["zq_extra_%d" % k for k in range(rng.randint(0, 2))]
+    rng.shuffle(order)
+    byl = dict((r[0], r) for r in src_model)
+    return d.TaxonNamespace(order), list(order), [byl[l] for l in order if l in byl]
+
+
+def check_source_unchanged(ctx, m, before, ns_before, fmt, op, info):
+    """writing must not change the object written (it may be written again)"""
+    ctx.ev("source-unchanged-checked")
+    after = extract(m)
+    ns_after = [t.label for t in m.taxon_namespace]
+    if after != before:
+        diff = U.compare_models(before, after, info.get("type"), info.get("alphabet")) or ("content", "changed", None)
+        ctx.violation("write:%s|source-matrix-changed-by-writing|%s|%s" % (fmt, diff[0], diff[1]),
+                      "[%s] the matrix is not the same after as_string/write(%s) as before" % (op, fmt),
+                      {"diff": diff[2], "info": info})
+        return False
+    if ns_after != ns_before:
+        ctx.violation("write:%s|source-namespace-changed-by-writing" % fmt,
+                      "[%s] the taxon namespace is not the same after as_string/write(%s) as before" % (op, fmt),
+                      {"before": ns_before[:20], "after": ns_after[:20], "info": info})
+        return False
+    return True
+
+
+def roundtrip(ctx, rng, S, m, sa, src_model, dtype, alphabet, fmt, variant, op="roundtrip", info=None, tmp=None,
+              rns="draw", io="draw", keep_order=False):
+    """(R) one write + read-back + comparison.  Returns the read-back matrix (or None).
+    rns: reader namespace mode (None / same / superset / empty; "draw" = chosen here); io: I/O route;
+    keep_order: the caller compares further steps with the same model (no re-ordering namespace)."""
     info = dict(info or {})
     info.update({"type": dtype, "fmt": fmt, "variant": variant, "alphabet": alphabet})
     support = U.SUPPORT[fmt].get(dtype)
@@ -696,6 +1057,10 @@ def roundtrip(ctx, rng, S, m, sa, src_model, dtype, alphabet, fmt, variant, op="
     if not labels_ok_for(fmt, variant, [r[0] for r in src_model]):
         ctx.note("labels-not-admissible-for-%s-%s(skipped)" % (fmt, variant))
         return None
+    lens = set(len(r[1]) for r in src_model)
+    if fmt in ("nexus", "phylip") and (len(lens) > 1 or 0 in lens):
+        ctx.note("rows-of-unequal-or-zero-length-not-sent-to-%s(aligned-format)" % fmt)
+        return None
     wkw, rkw = variant_options(fmt, variant)
     wkw, rkw = dict(wkw), dict(rkw)
     if dtype == "standard":
@@ -703,11 +1068,22 @@ def roundtrip(ctx, rng, S, m, sa, src_model, dtype, alphabet, fmt, variant, op="
         info["named_multistate"] = bool(names[1] or names[2])
         if fmt in ("phylip", "fasta") and (sa is not None or alphabet not in (None, "digits")):
             # PHYLIP / FASTA carry no symbol list: the reader is given the matrix's own alphabet
-            rkw["default_state_alphabet"] = sa if sa is not None else m.default_state_alphabet
+            rkw["default_state_alphabet"] = sa if sa is not None else matrix_alphabet(m)
     if variant == "same_ns":
-        rkw["taxon_namespace"] = m.taxon_namespace
+        rns = "same"
+    elif rns == "draw":
+        rns = rng.choice(READER_NS_MODES)
+        if keep_order and rns == "superset":
+            rns = "same"
+    if variant == "path":
+        io = "path"
+    elif io == "draw":
+        io = pick_io(rng)
+    if io == "legacy" and rng.random() < 0.5:
+        io = "legacy-stream"
+    info["reader_namespace"], info["io"] = rns, io
     S.reset()
-    tmpdir = tmp if variant == "path" else None
+    tmpdir = tmp
     if support == "reject":
         ctx.ev("documented-rejection-checked")
         try:
@@ -725,8 +1101,15 @@ def roundtrip(ctx, rng, S, m, sa, src_model, dtype, alphabet, fmt, variant, op="
         ctx.note("phylip-namespace-has-taxa-without-sequences(written-with-suppress_missing_taxa)")
     if dtype == "standard" and not alphabets_cover_cells(m):
         info["alphabets_lost"] = True
-    text = write_obj(ctx, m, fmt, wkw, op, info, tmpdir, src_model)
+    if fmt == "nexml" and mixed_character_types(m):
+        info["mixed_character_types"] = True
+    before = extract(m)
+    ns_before = [t.label for t in m.taxon_namespace]
+    text = write_obj(ctx, m, fmt, wkw, op, info, tmpdir, src_model, io=io)
     if text is None:
+        ctx.ev("roundtrip-checked")
+        return None
+    if not check_source_unchanged(ctx, m, before, ns_before, fmt, op, info):
         ctx.ev("roundtrip-checked")
         return None
     labels = [r[0] for r in src_model]
@@ -749,15 +1132,186 @@ def roundtrip(ctx, rng, S, m, sa, src_model, dtype, alphabet, fmt, variant, op="
     read_as = "standard" if support == "as-standard" else None
     if read_as:
         ctx.note("nexus-%s-read-back-as-standard(type-not-carried-by-format)" % dtype)
-    m2 = read_matrix(ctx, dtype, text, fmt, rkw, op, src_model, info, read_as, tmpdir)
+    want_model = src_model
+    given_ns = ns_given_before = None
+    if rns is not None:
+        given_ns, ns_given_before, want_model = reader_namespace(rng, m, src_model, rns)
+        rkw["taxon_namespace"] = given_ns
+        info["document_order"] = [r[0] for r in src_model]
+        # (the additive read reads a second time into the namespace that the first read filled)
+        info["reader_ns_size_before"] = max(len(ns_given_before), 1 if io == "dataset-read" else 0)
+        info["reader_interleaved"] = bool(rkw.get("interleaved"))
+    m2 = read_matrix(ctx, dtype, text, fmt, rkw, op, src_model, info, read_as, tmpdir, io=io)
     ctx.ev("roundtrip-checked")
     if m2 is None:
         return None
     got = extract(m2)
-    ok = judge_models(ctx, op, fmt, dtype, alphabet, src_model, got, S, info, text)
+    ok = judge_models(ctx, op, fmt, dtype, alphabet, want_model, got, S, info, text)
     if ok and read_as is None and m2.data_type != dtype:
         ctx.violation("%s:%s|data-type|%s->%s" % (op, fmt, dtype, m2.data_type), "data type changed")
+    if ok and given_ns is not None:
+        # the reader was told which namespace to use: the matrix is attached to it and no taxon is added for a label it has
+        ctx.ev("reader-namespace-checked")
+        ns_after = [t.label for t in given_ns]
+        want_ns = ns_given_before
+        if rns == "empty":
+            # filled by the reader: the labels of the rows, possibly the other taxa of the source namespace (formats
+            # with a taxa section), nothing else and nothing twice
+            rowl = set(r[0] for r in src_model)
+            if rowl <= set(ns_after) <= set(ns_before) and len(set(ns_after)) == len(ns_after):
+                want_ns = ns_after
+            else:
+                want_ns = [r[0] for r in src_model]
+        if m2.taxon_namespace is not given_ns:
+            ctx.violation("%s:%s|reader-namespace|matrix-not-attached-to-the-given-namespace" % (op, fmt),
+                          "get(..., taxon_namespace=ns) returned a matrix over another namespace", {"info": info})
+            ok = False
+        elif ns_after != want_ns and fmt == "nexus" and info.get("decor_unbalanced"):
+            ctx.violation(K_BRACKET, "an annotation / comment value with unbalanced square brackets is written inside a NEXUS "
+                          "comment as it is: the rest of it is read as taxon labels", {"info": info, "text": text[:800]})
+            ok = False
+        elif ns_after != want_ns:
+            ctx.violation("%s:%s|reader-namespace|%s" % (op, fmt, "taxa-added" if len(ns_after) > len(want_ns)
+                                                         else "labels-changed"),
+                          "reading into the namespace %r left it as %r" % (want_ns[:12], ns_after[:12]),
+                          {"info": info, "text": text[:800]})
+            ok = False
     return m2 if ok else None
+
+
+# ------------------------------------------------------------------------------------------------
+# object histories: edits after construction, decorations (annotations / comments)
+def matrix_alphabet(m):
+    """the alphabet a user looks symbols up in: the default one, else the first (a parsed matrix may have several and,
+    documented, no default then)"""
+    try:
+        sa = getattr(m, "default_state_alphabet", None)
+    except TypeError:
+        sa = None
+    if sa is None and getattr(m, "state_alphabets", None):
+        sa = m.state_alphabets[0]
+    return sa
+
+
+def values_for(m, dtype, row):
+    """what a user hands to new_sequence / item assignment for a row of raw symbols: state objects looked up in the
+    matrix's own alphabet (or the numbers)"""
+    if dtype == "continuous":
+        return list(row)
+    sa = matrix_alphabet(m)
+    return [sa[c] for c in row]
+
+
+EDIT_KINDS = ("add-row-new_sequence", "add-row-setitem", "replace-cell", "delete-row", "relabel-taxon", "replace-row")
+
+
+def post_edit(ctx, rng, m, model, dtype, alphabet, lstyle, nedits=None):
+    """(history) edit a built matrix through the public API and edit the model in parallel.
+    -> (new model, list of edit kinds applied).  The edited matrix must hold the edited model (construct clause)."""
+    model = [[l, list(c)] for l, c in model]
+    applied = []
+    if any(isinstance(c, list) or c is None for _, r in model for c in r):
+        return model, applied          # symbol-less multistates: no symbol to look a replacement up with
+    ncols = max([len(r[1]) for r in model] or [0])
+    if dtype != "continuous" and matrix_alphabet(m) is None:
+        return model, applied
+    fund, gap, missing, amb, syn = U.type_symbols(dtype, alphabet) if dtype != "continuous" else ("", "", "", {}, {})
+    pool = fund + gap + missing + "".join(sorted(amb))
+
+    def new_row(n):
+        if dtype == "continuous":
+            return [U.gen_value(rng) for _ in range(n)]
+        return [rng.choice(pool) for _ in range(n)]
+
+    def as_model(row):
+        return U.expected_model(dtype, ["x"], [row], alphabet)[0][1]
+
+    ns = m.taxon_namespace
+    kinds = EDIT_KINDS
+    if dtype != "continuous" and len(m.state_alphabets) > 1:
+        # several alphabets and (documented) no default: a whole row without character types has no defined alphabet;
+        # single cells can still be replaced (the cell keeps its character type)
+        kinds = ("replace-cell", "delete-row", "relabel-taxon")
+    for _ in range(nedits or rng.choice([1, 1, 2, 3])):
+        kind = rng.choice(kinds)
+        rows_by_label = dict((r[0], r) for r in model)
+        if kind in ("add-row-new_sequence", "add-row-setitem"):
+            taken = [t.label for t in ns]
+            lab = U.gen_labels(rng, 1, lstyle, taken=taken, long_p=0)[0]
+            t = ns.new_taxon(label=lab)
+            row = new_row(ncols)
+            vals = values_for(m, dtype, row)
+            if kind == "add-row-new_sequence":
+                m.new_sequence(t, vals)
+            else:
+                m[t] = vals
+            model.append([lab, as_model(row)])
+        elif kind == "replace-cell" and model and ncols:
+            r = rng.choice([r for r in model if r[1]] or [None])
+            if r is None:
+                continue
+            j = rng.randrange(len(r[1]))
+            c = new_row(1)
+            seq = m[ns.get_taxon(r[0])]
+            ctype = seq.character_type_at(j)
+            if dtype != "continuous" and ctype is not None and getattr(ctype, "state_alphabet", None) is not None:
+                seq[j] = ctype.state_alphabet[c[0]]          # the column's own alphabet (a parsed matrix may have several)
+            else:
+                seq[j] = values_for(m, dtype, c)[0]
+            r[1][j] = as_model(c)[0]
+        elif kind == "replace-row" and model:
+            r = rng.choice(model)
+            row = new_row(len(r[1]))
+            m[ns.get_taxon(r[0])] = values_for(m, dtype, row)
+            r[1][:] = as_model(row)
+        elif kind == "delete-row" and len(model) >= 2:
+            r = rng.choice(model)
+            del m[ns.get_taxon(r[0])]
+            model.remove(r)
+        elif kind == "relabel-taxon" and model:
+            r = rng.choice(model)
+            taken = [t.label for t in ns]
+            lab = U.gen_labels(rng, 1, lstyle, taken=taken, long_p=0)[0]
+            ns.get_taxon(r[0]).label = lab
+            r[0] = lab
+        else:
+            continue
+        applied.append(kind)
+    # rows come in namespace order
+    pos = dict((t.label, k) for k, t in enumerate(ns))
+    model.sort(key=lambda r: pos[r[0]])
+    return model, applied
+
+
+ANNOTATION_VALUES = ("plain", "two words", 3.5, 7, None, ["u", "v"], "q'r", 'd"e', "<&>", "a;b", "k=v,w", "x[y]z", "{curly}",
+                     "x] y", "[open", "tab\there")
+
+
+def decorate(ctx, rng, m, fmt):
+    """(history) metadata as a parsed NeXML <meta> / NEXUS [&..] leaves it: annotations and comments on the matrix, its
+    namespace, taxa and sequences.  They are not part of what is compared; the rows must survive whatever they hold.
+    -> True when a value with unbalanced square brackets was attached to something NEXUS writes a comment for"""
+    unbalanced = False
+    targets = [("matrix", m), ("namespace", m.taxon_namespace)]
+    taxa = list(m.taxon_namespace)
+    for t in rng.sample(taxa, min(len(taxa), rng.randint(1, 3))):
+        targets.append(("taxon", t))
+        if t in m._taxon_sequence_map and rng.random() < 0.5:
+            targets.append(("sequence", m._taxon_sequence_map[t]))
+    for kind, obj in targets:
+        if rng.random() < 0.35:
+            continue
+        for k in range(rng.randint(1, 2)):
+            v = rng.choice(ANNOTATION_VALUES)
+            if rng.random() < 0.75 or not hasattr(obj, "comments"):
+                obj.annotations.add_new("key%d" % k, v)
+            else:
+                if v is None or isinstance(v, list):
+                    v = "a comment"
+                obj.comments.append(str(v))
+            if kind in ("matrix", "namespace", "taxon") and any(unbalanced_brackets(x) for x in (v if isinstance(v, list) else [v])):
+                unbalanced = True
+    return unbalanced
 
 
 # ------------------------------------------------------------------------------------------------
@@ -781,34 +1335,72 @@ def sig_of(kind, dtype, fmt, variant, route, model):
     return (kind, dtype, fmt, variant, route, core.short_hash(model))
 
 
+def pick_target(rng, dtype, ragged=False):
+    fmts = [f for f in FORMATS if U.SUPPORT[f].get(dtype) and (not ragged or f in ("fasta", "nexml"))]
+    fmt = rng.choice(fmts)
+    return fmt, rng.choice(VARIANTS[fmt])
+
+
 def do_roundtrip_case(ctx, rng, S, dtype, fmt, variant, dims, route, tmp, kind, alphabet=None, lstyle=None,
-                      style=None):
+                      style=None, history=True):
     if alphabet is None:
         alphabet = pick_alphabet(rng, dtype)
     lstyle = lstyle or label_style_for(fmt, variant, rng)
     opts = None
-    if route == "parsed_phylip":
+    if route == "parsed_phylip" or (history and route in COMPOSED_ROUTES):
+        # (the source of a composed route may be a parsed PHYLIP document: labels must fit one)
         if lstyle == "strict10":
             opts = {"strict": True}
         elif lstyle == "singlespace":
             opts = {"multispace": True}
-        elif lstyle not in ("simple", "nospace"):
+        elif route == "parsed_phylip" and lstyle not in ("simple", "nospace"):
             lstyle = "nospace"
     style = style or pick_style(rng, dtype)
     if route == "parsed_nexml" and dtype == "standard" and style in ("full", "amb"):
         style = "gappy"
-    labels = U.gen_labels(rng, dims[0], lstyle)
+    labels = U.gen_labels(rng, dims[0], lstyle, long_p=0.05 if variant not in STRICT_VARIANTS else 0)
     rows = U.gen_rows(rng, dtype, dims[0], dims[1], style, alphabet)
-    built = build_matrix(ctx, rng, dtype, labels, rows, alphabet, route, opts)
+    ragged = False
+    if history and fmt in ("fasta", "nexml") and dims[1] >= 2 and rng.random() < 0.15 \
+            and route in ("from_dict", "from_dict_ns", "setitem", "parsed_fasta", "parsed_nexml", "clone2", "deepcopy"):
+        rows = U.make_ragged(rng, rows)
+        ragged = True
+    base = None
+    if history and route in COMPOSED_ROUTES and rng.random() < 0.45:
+        base = rng.choice(["parsed_nexus", "parsed_phylip", "parsed_fasta", "parsed_nexml"])
+    built = build_matrix(ctx, rng, dtype, labels, rows, alphabet, route, opts, base=base)
     if built is None:
-        ctx.note("route-not-applicable:%s" % route)
+        ctx.note("route-not-applicable:%s%s" % (route, "<-" + base if base else ""))
         return None
     m, sa, exp, judged = built
     model = check_construct(ctx, m, exp, dtype, alphabet, route, judged)
+    info = {"route": route, "labels": lstyle, "dims": list(dims)}
+    if base:
+        info["base"] = base
+    if ragged:
+        info["ragged"] = True
+    if history and rng.random() < 0.3 and not ragged:
+        elstyle = lstyle if not route.startswith("parsed_") or lstyle in ("simple", "nospace", "strict10") else "simple"
+        want, applied = post_edit(ctx, rng, m, model, dtype, alphabet, elstyle)
+        if applied:
+            info["edits"] = applied
+            ctx.ev("post-edit-checked")
+            model = check_construct(ctx, m, want, dtype, alphabet, "post-edit:" + applied[0], True)
+    if history and rng.random() < 0.12:
+        info["decorated"] = True
+        if decorate(ctx, rng, m, fmt):
+            info["decor_unbalanced"] = True
+        ctx.ev("decorated-matrix-written")
     if dims[0] * dims[1] >= 2:
         ctx.nontrivial(sig_of(kind, dtype, fmt, variant, route, model))
-    info = {"route": route, "labels": lstyle, "dims": list(dims)}
     m2 = roundtrip(ctx, rng, S, m, sa, model, dtype, alphabet, fmt, variant, info=info, tmp=tmp)
+    if history and rng.random() < 0.3:
+        # fan-out: the SAME object is written again (same or other format); every read-back is judged against the model
+        # taken before the first write
+        for _ in range(rng.choice([1, 1, 2])):
+            f2, v2 = (fmt, variant) if rng.random() < 0.3 else pick_target(rng, dtype, ragged)
+            ctx.ev("fanout-checked")
+            roundtrip(ctx, rng, S, m, sa, model, dtype, alphabet, f2, v2, op="fanout", info=dict(info, first=fmt), tmp=tmp)
     return m, sa, model, alphabet, m2
 
 
@@ -857,18 +1449,26 @@ def run_chain(case, ctx, rng, S, tmp):
     elif "phylip" in seq:
         lstyle = rng.choice(["simple", "nospace"])
     elif "fasta" in seq:
-        lstyle = rng.choice(["simple", "singlespace"])
+        lstyle = rng.choice(["simple", "singlespace", "hostile"])       # (FASTA: anything on one line)
     else:
-        lstyle = rng.choice(["simple", "hostile-xmlsafe"])
+        lstyle = rng.choice(["simple", "hostile-xmlsafe", "hostile"])
     if lstyle == "strict10" and any(f == "phylip" and v != "strict" for f, v in zip(seq, variants)):
         lstyle = "simple"
     dims = U.gen_dims(rng, ctx.tier, "nexml" in seq)
     if "nexml" in seq and dims[0] * dims[1] > 3000:
         dims = (min(dims[0], 15), min(dims[1], 150))
-    labels = U.gen_labels(rng, dims[0], lstyle)
+    labels = U.gen_labels(rng, dims[0], lstyle, long_p=0 if any(v == "strict" for v in variants) else 0.05)
     rows = U.gen_rows(rng, dtype, dims[0], dims[1], pick_style(rng, dtype), alphabet)
+    if all(f in ("fasta", "nexml") for f in seq) and dims[1] >= 2 and rng.random() < 0.3:
+        rows = U.make_ragged(rng, rows)        # formats without an alignment requirement
     m, sa = from_dict(dtype, labels, rows, alphabet)
     model0 = check_construct(ctx, m, U.expected_model(dtype, labels, rows, alphabet), dtype, alphabet, "from_dict", True)
+    if rng.random() < 0.2 and len(set(len(r) for r in rows)) == 1:
+        want, applied = post_edit(ctx, rng, m, model0, dtype, alphabet, lstyle if lstyle != "hostile" else "simple")
+        if applied:
+            ctx.ev("post-edit-checked")
+            model0 = check_construct(ctx, m, want, dtype, alphabet, "post-edit:" + applied[0], True)
+            labels = [r[0] for r in model0]
     ctx.nontrivial(sig_of("chain", dtype, "-".join(seq), "-".join(variants), "from_dict", model0))
     cur = m
     for step, (f, v) in enumerate(zip(seq, variants)):
@@ -880,7 +1480,7 @@ def run_chain(case, ctx, rng, S, tmp):
             cur_sa = None
         ctx.ev("chain-step-checked")
         nxt = roundtrip(ctx, rng, S, cur, cur_sa, model0, dtype, alphabet, f, v, op="chain",
-                        info={"chain": seq, "variants": variants, "step": step}, tmp=tmp)
+                        info={"chain": seq, "variants": variants, "step": step}, tmp=tmp, keep_order=True)
         if nxt is None:
             return
         # the model written in the next step must be what was read here
@@ -899,30 +1499,57 @@ def random_tree_spec(rng, labels):
     return gen.random_spec(rng, len(names), p_poly=0.2, names=names)
 
 
-def build_dataset(ctx, rng, nns, fmt, lstyle, attached=False, overlap=False):
+def case_variant(rng, t):
+    for v in rng.sample([t.upper(), t.lower(), t.swapcase(), t.capitalize()], 4):
+        if v != t:
+            return v
+    return None
+
+
+def titles_differ_only_in_case(desc):
+    """two blocks of one kind whose titles are different strings that are equal up to letter case"""
+    for titles in desc.get("titles", {}).values():
+        seen = {}
+        for t in titles:
+            if t is None:
+                continue
+            if t.upper() in seen and seen[t.upper()] != t:
+                return True
+            seen.setdefault(t.upper(), t)
+    return False
+
+
+def build_dataset(ctx, rng, nns, fmt, lstyle, attached=False, overlap=False, identical=False):
     """-> (DataSet, description) ; description = {"ns": [[labels]...], "matrices": [(ns idx, type, alphabet, model)],
-    "trees": [(ns idx, ntrees, [leaf label sets])]}"""
+    "trees": [(ns idx, ntrees, [leaf label sets])], "titles": {kind: [labels of the blocks]}}"""
     d = dp()
     ds = d.DataSet()
-    desc = {"ns": [], "nslabels": [], "matrices": [], "trees": []}
+    desc = {"ns": [], "nslabels": [], "matrices": [], "trees": [], "titles": {"ns": [], "m": [], "t": []}}
     types = [t for t in TYPES if U.SUPPORT[fmt].get(t) in (1, "as-standard")]
     used_titles = set()
 
-    dup_titles = []
-
     def title(prefix):
+        t = _title(prefix)
+        desc["titles"][prefix].append(t)
+        return t
+
+    def _title(prefix):
         # block titles may legitimately repeat (the writer documents that it makes them unique with a numeric
-        # suffix): with some probability an earlier title - including ones that need NEXUS quoting - is used again
-        if prefix == "ns" and dup_titles and rng.random() < 0.35:
-            return rng.choice(dup_titles)
+        # suffix): with some probability an earlier title - including ones that need NEXUS quoting - is used again,
+        # as it is or in another letter case (the statement puts no restriction on the labels of namespaces / blocks)
+        earlier = [t for t in desc["titles"][prefix] if t]
+        if earlier and rng.random() < (0.35 if prefix == "ns" else 0.1):
+            t = rng.choice(earlier)
+            if rng.random() < 0.3:
+                t = case_variant(rng, t) or t
+            return t
         while True:
             t = rng.choice([None, None, prefix + str(rng.randint(0, 99)), prefix + " block_" + str(rng.randint(0, 9))] + (
-                U.gen_labels(rng, 1, "hostile-xmlsafe" if fmt == "nexml" else "hostile") if rng.random() < 0.3 else []))
+                U.gen_labels(rng, 1, "hostile-xmlsafe" if fmt == "nexml" else "hostile", long_p=0)
+                if rng.random() < 0.3 else []))
             if t is None or t.upper() not in used_titles:
                 if t is not None:
                     used_titles.add(t.upper())
-                    if prefix == "ns":
-                        dup_titles.append(t)
                 return t
     # '=' and '\\' are left unquoted in tree statements (finding of C02): not used where tree lists are written
     # a label that is exactly one Newick punctuation character is quoted by the writer but still read as
@@ -931,7 +1558,9 @@ def build_dataset(ctx, rng, nns, fmt, lstyle, attached=False, overlap=False):
     base = U.gen_labels(rng, rng.randint(1, 6), lstyle, exclude="=\\", forbid=forbid)
     nss = []
     for k in range(nns):
-        if overlap and k:
+        if identical and k:
+            labels = list(base)           # another namespace with exactly the same labels: still a namespace of its own
+        elif overlap and k:
             labels = list(base) + U.gen_labels(rng, rng.randint(0, 2), "simple")
             labels = list(collections.OrderedDict((l.lower(), l) for l in labels).values())
             rng.shuffle(labels)
@@ -995,34 +1624,103 @@ def tree_leaf_labels(tree):
     return sorted(x for x in ref.leaf_taxa(spec))
 
 
-def check_dataset(ctx, S, ds2, desc, fmt, op, info, text):
-    """matrices / tree lists of the data set read back against the description of the source"""
+def _ns_labels_ok(want, nsl, fmt):
+    return sorted(nsl) == sorted(want)
+
+
+def _without_taxa_section(want, nsl, info):
+    """NEXUS 'simple' (documented: no TAXA block) cannot carry taxa that no row and no tree mentions: the namespace read back
+    may lack some of its labels, it must not have others"""
+    return bool((info.get("writer") or {}).get("simple") or info.get("taxa_section_lost")) and set(nsl) <= set(want) \
+        and len(set(nsl)) == len(nsl)
+
+
+def _matrix_matches(m2, entry, desc, fmt):
+    k, dtype, alphabet, model = entry
+    if not set(t.label for t in m2.taxon_namespace) <= set(desc["ns"][k]):
+        return False
+    return U.compare_models(model, extract(m2), dtype, alphabet) is None
+
+
+def _tree_list_matches(tl2, entry, desc, fmt):
+    k, ntrees, sets = entry
+    return set(t.label for t in tl2.taxon_namespace) <= set(desc["ns"][k]) and len(tl2) == ntrees
+
+
+def _assignment(items, entries, pred):
+    """a permutation p with pred(items[p[i]], entries[i]) for all i (small lists: backtracking), or None"""
+    n = len(entries)
+    ok = [[pred(items[j], entries[i]) for j in range(n)] for i in range(n)]
+    used, out = [False] * n, []
+
+    def rec(i):
+        if i == n:
+            return True
+        for j in range(n):
+            if ok[i][j] and not used[j]:
+                used[j] = True
+                out.append(j)
+                if rec(i + 1):
+                    return True
+                used[j] = False
+                out.pop()
+        return False
+    return list(out) if rec(0) else None
+
+
+def check_dataset(ctx, S, ds2, desc, fmt, op, info, text, type_lost=False):
+    """matrices / tree lists of the data set read back against the description of the source.  True when everything held.
+    The statement asks that every block comes back attached to a namespace with exactly its own labels; the order of the
+    blocks in the data set and of the labels in the namespaces is compared but a mere re-ordering is recorded-not-judged."""
     d = dp()
+    n0 = len(ctx.violations) + sum(v["count"] for v in ctx.violations.values())
     if len(ds2.char_matrices) != len(desc["matrices"]) or len(ds2.tree_lists) != len(desc["trees"]):
         ctx.violation("%s:%s|block-count|matrices-or-tree-lists" % (op, fmt),
                       "data set read back with %d matrices / %d tree lists, written %d / %d" % (
                           len(ds2.char_matrices), len(ds2.tree_lists), len(desc["matrices"]), len(desc["trees"])),
                       {"info": info, "text": text[:1500]})
-        return
-    for m2, (k, dtype, alphabet, model) in zip(ds2.char_matrices, desc["matrices"]):
+        return False
+    mats, tls = list(ds2.char_matrices), list(ds2.tree_lists)
+    if 1 < len(mats) <= 6 and not all(_matrix_matches(m2, e, desc, fmt) for m2, e in zip(mats, desc["matrices"])):
+        p = _assignment(mats, desc["matrices"], lambda m2, e: _matrix_matches(m2, e, desc, fmt))
+        if p is not None:
+            ctx.note("dataset-matrices-read-back-in-another-order(not-judged)")
+            mats = [mats[j] for j in p]
+    if 1 < len(tls) <= 6 and not all(_tree_list_matches(t2, e, desc, fmt) for t2, e in zip(tls, desc["trees"])):
+        p = _assignment(tls, desc["trees"], lambda t2, e: _tree_list_matches(t2, e, desc, fmt))
+        if p is not None:
+            ctx.note("dataset-tree-lists-read-back-in-another-order(not-judged)")
+            tls = [tls[j] for j in p]
+    ns_of = {}        # source namespace index -> namespace objects its blocks came back on
+    for m2, (k, dtype, alphabet, model) in zip(mats, desc["matrices"]):
         ctx.ev("dataset-block-checked")
         nsl = [t.label for t in m2.taxon_namespace]
         want = desc["ns"][k]
         if fmt == "nexml" and nsl != want and nsl == [U.json_escaped(l) for l in want]:
             ctx.violation(K_JSON,
                           "namespace labels read back in their JSON-escaped spelling", {"info": info})
-        elif nsl != want and fmt == "nexus" and ";" in want:
+        elif nsl != want and fmt == "nexus" and semi_signature_ns(want, nsl):
             ctx.violation(K_SEMI,
                           "taxon label ';' is written quoted but the reader takes it for the end of the statement",
                           {"info": info, "text": text[:1500]})
             continue
+        elif nsl != want and sorted(nsl) == sorted(want):
+            ctx.note("namespace-labels-read-back-in-another-order(not-judged)")
+        elif nsl != want and _without_taxa_section(want, nsl, info):
+            ctx.note("nexus-simple-has-no-taxa-block(unreferenced-taxa-not-carried)")
         elif nsl != want:
-            ctx.violation("%s:%s|matrix-attached-to-namespace-with-other-labels|%s" % (
-                op, fmt, "same-set" if sorted(nsl) == sorted(want) else "other-set"),
-                "matrix re-attached to a namespace with labels %r, its own namespace had %r" % (nsl[:8], want[:8]),
-                {"info": info, "text": text[:1500]})
+            ctx.violation("%s:%s|matrix-attached-to-namespace-with-other-labels|other-set" % (op, fmt),
+                          "matrix re-attached to a namespace with labels %r, its own namespace had %r" % (nsl[:8], want[:8]),
+                          {"info": info, "text": text[:1500]})
             continue
-        if U.SUPPORT[fmt].get(dtype) == "as-standard":
+        ns_of.setdefault(k, []).append(m2.taxon_namespace)
+        members = set(id(t) for t in m2.taxon_namespace)
+        if any(id(t) not in members for t in m2._taxon_sequence_map):
+            ctx.violation("%s:%s|matrix-row-on-taxon-outside-its-namespace" % (op, fmt),
+                          "a sequence of the matrix read back belongs to a Taxon object that is not in the matrix's namespace",
+                          {"info": info, "text": text[:1500]})
+            continue
+        if U.SUPPORT[fmt].get(dtype) == "as-standard" or (type_lost and dtype in ("restriction", "infinite")):
             ctx.note("nexus-%s-read-back-as-standard(type-not-carried-by-format)" % dtype)
         elif m2.data_type != dtype:
             ctx.violation("%s:%s|data-type|%s->%s" % (op, fmt, dtype, m2.data_type), "data type changed", {"info": info})
@@ -1038,7 +1736,7 @@ def check_dataset(ctx, S, ds2, desc, fmt, op, info, text):
             if glens and lens and max(glens) > max(lens):
                 S2.nexml_cols = (sum(lens), max(lens), len(lens))
         judge_models(ctx, op, fmt, dtype, alphabet, model, extract(m2), S2, minfo, text)
-    for tl2, (k, ntrees, sets) in zip(ds2.tree_lists, desc["trees"]):
+    for tl2, (k, ntrees, sets) in zip(tls, desc["trees"]):
         ctx.ev("dataset-block-checked")
         nsl = [t.label for t in tl2.taxon_namespace]
         want = desc["ns"][k]
@@ -1046,23 +1744,121 @@ def check_dataset(ctx, S, ds2, desc, fmt, op, info, text):
             ctx.violation(K_JSON,
                           "namespace labels read back in their JSON-escaped spelling", {"info": info})
             continue
-        if nsl != want:
-            ctx.violation("%s:%s|tree-list-attached-to-namespace-with-other-labels|%s" % (
-                op, fmt, "same-set" if sorted(nsl) == sorted(want) else "other-set"),
-                "tree list re-attached to a namespace with labels %r, its own namespace had %r" % (nsl[:8], want[:8]),
-                {"info": info, "text": text[:1500]})
+        if nsl != want and fmt == "nexus" and semi_signature_ns(want, nsl):
+            ctx.violation(K_SEMI,
+                          "taxon label ';' is written quoted but the reader takes it for the end of the statement",
+                          {"info": info, "text": text[:1500]})
             continue
+        if nsl != want and sorted(nsl) == sorted(want):
+            ctx.note("namespace-labels-read-back-in-another-order(not-judged)")
+        elif nsl != want and _without_taxa_section(want, nsl, info):
+            ctx.note("nexus-simple-has-no-taxa-block(unreferenced-taxa-not-carried)")
+        elif nsl != want:
+            ctx.violation("%s:%s|tree-list-attached-to-namespace-with-other-labels|other-set" % (op, fmt),
+                          "tree list re-attached to a namespace with labels %r, its own namespace had %r" % (nsl[:8], want[:8]),
+                          {"info": info, "text": text[:1500]})
+            continue
+        ns_of.setdefault(k, []).append(tl2.taxon_namespace)
         if len(tl2) != ntrees:
             ctx.violation("%s:%s|tree-count" % (op, fmt), "tree list has %d trees, written %d" % (len(tl2), ntrees),
                           {"info": info})
             continue
+        members = set(id(t) for t in tl2.taxon_namespace)
         for t2, want_leaves in zip(tl2, sets):
+            # "attached to a namespace": the tree and every taxon its nodes refer to belong to the list's namespace
+            if t2.taxon_namespace is not tl2.taxon_namespace or any(
+                    nd.taxon is not None and id(nd.taxon) not in members for nd in t2.preorder_node_iter()):
+                ctx.violation("%s:%s|tree-taxon-outside-the-namespace-of-its-tree-list" % (op, fmt),
+                              "a node of a tree read back refers to a Taxon object that is not in the namespace of its "
+                              "tree list", {"info": info, "text": text[:1500]})
+                break
             try:
                 got = tree_leaf_labels(t2)
             except bridge.ExtractError:
+                ctx.note("tree-read-back-not-extractable(C02-domain)")
                 continue
             if got != want_leaves:
                 ctx.note("tree-leaf-labels-differ-after-dataset-roundtrip(C02-domain)")
+    # blocks of one source namespace share one namespace object; blocks of different namespaces never do
+    ctx.ev("namespace-sharing-checked")
+    for k, objs in ns_of.items():
+        if any(o is not objs[0] for o in objs):
+            ctx.violation("%s:%s|namespace-sharing|blocks-of-one-namespace-came-back-on-different-namespaces" % (op, fmt),
+                          "blocks that shared namespace %d are attached to %d different namespace objects" % (
+                              k, len(set(id(o) for o in objs))), {"info": info, "text": text[:1500]})
+    ks = sorted(ns_of)
+    for a in range(len(ks)):
+        for b in range(a + 1, len(ks)):
+            if any(x is y for x in ns_of[ks[a]] for y in ns_of[ks[b]]):
+                ctx.violation("%s:%s|namespace-sharing|blocks-of-different-namespaces-came-back-on-one-namespace" % (op, fmt),
+                              "blocks of the namespaces %d and %d are attached to the same namespace object" % (ks[a], ks[b]),
+                              {"info": info, "text": text[:1500]})
+    return n0 == len(ctx.violations) + sum(v["count"] for v in ctx.violations.values())
+
+
+def read_dataset(ctx, text, fmt, rkw, io, tmp):
+    d = dp()
+    if io in ("path", "file") and tmp is not None:
+        p = os.path.join(tmp, "ds-r.%s" % fmt)
+        with open(p, "w", encoding="utf-8") as f:
+            f.write(text)
+        if io == "path":
+            return d.DataSet.get(path=p, schema=fmt, **rkw)
+        with open(p, encoding="utf-8") as f:
+            return d.DataSet.get(file=f, schema=fmt, **rkw)
+    if io == "read":
+        ds = d.DataSet()
+        if "taxon_namespace" in rkw:
+            rkw = dict(rkw)
+            ds.attach_taxon_namespace(rkw.pop("taxon_namespace"))
+        ds.read(data=text, schema=fmt, **rkw)
+        return ds
+    return d.DataSet.get(data=text, schema=fmt, **rkw)
+
+
+def dataset_readback(ctx, S, ds, desc, fmt, wkw, rkw, info, tmp, io="string", type_lost=False):
+    """write the data set, read it back, judge.  -> the data set read back when everything held, else None"""
+    S.reset()
+    wio = {"path": "path", "file": "file"}.get(io, "string")
+    text = write_obj(ctx, ds, fmt, wkw, "dataset", info, tmp, io=wio)
+    if text is None:
+        return None
+    nns = len(desc["ns"])
+    try:
+        ds2 = read_dataset(ctx, text, fmt, rkw, io, tmp)
+    except core.CaseTimeout:
+        raise
+    except Exception as e:
+        ctx.ev("dataset-block-checked")
+        detail = {"error": core.exc_brief(e), "info": info, "text": text[:2000]}
+        all_labels = [l for ls in desc["ns"] for l in ls] + [x for x in desc["nslabels"] if x]
+        if fmt == "nexus" and type(e).__name__ == "LinkRequiredError" and info.get("suppress_block_titles") == "False" \
+                and nns >= 2 and "TITLE" not in text.upper().replace("'", ""):
+            ctx.violation(K_SBT,
+                          "suppress_block_titles=False (documented: always write TITLE) wrote no TITLE/LINK for %d "
+                          "namespaces; the reader cannot attach the blocks" % nns, detail)
+        elif fmt == "nexus" and type(e).__name__ == "MultipleBlockWithSameTitleError" and titles_differ_only_in_case(desc):
+            ctx.violation(K_CASE_TITLES,
+                          "the writer keeps block titles apart that differ only in letter case, the reader (NEXUS is not "
+                          "case-sensitive) takes them for the same title: %s" % core.exc_brief(e), detail)
+        elif fmt == "nexml" and type(e).__name__ == "ParseError" and any(c in l for l in all_labels for c in '"<&'):
+            ctx.violation(K_JSON,
+                          "NeXML written by the library is not well-formed XML", detail)
+        elif fmt == "nexus" and any(";" in ls for ls in desc["ns"]) and is_parse_error(e):
+            ctx.violation(K_SEMI, "label ';' taken for the end of a statement (%s)"
+                          % core.exc_brief(e), detail)
+        else:
+            ctx.unexpected("dataset-readback:%s" % fmt, e, detail)
+        return None
+    if "taxon_namespace" in rkw:
+        ctx.ev("reader-namespace-checked")
+        given = rkw["taxon_namespace"]
+        if any(x.taxon_namespace is not given for x in list(ds2.char_matrices) + list(ds2.tree_lists)):
+            ctx.violation("dataset-readback:%s|reader-namespace|block-not-attached-to-the-given-namespace" % fmt,
+                          "DataSet read with taxon_namespace=ns has a block over another namespace", {"info": info})
+            return None
+    ok = check_dataset(ctx, S, ds2, desc, fmt, "dataset-readback", info, text, type_lost=type_lost)
+    return ds2 if ok else None
 
 
 def run_dataset(case, ctx, rng, S, tmp):
@@ -1071,47 +1867,48 @@ def run_dataset(case, ctx, rng, S, tmp):
     sbt = rng.choice(["unset", "None", "False"]) if fmt == "nexus" else "unset"
     lstyle = rng.choice(["simple", "simple", "hostile-xmlsafe" if fmt == "nexml" else "hostile"])
     attached = nns == 1 and rng.random() < 0.3
-    overlap = rng.random() < 0.4
-    ds, desc = build_dataset(ctx, rng, nns, fmt, lstyle, attached, overlap)
-    wkw = {}
+    r = rng.random()
+    overlap, identical = r < 0.4, 0.4 <= r < 0.5 and nns >= 2
+    ds, desc = build_dataset(ctx, rng, nns, fmt, lstyle, attached, overlap, identical)
+    wkw, rkw = {}, {}
     if sbt == "None":
         wkw["suppress_block_titles"] = None
     elif sbt == "False":
         wkw["suppress_block_titles"] = False
     if fmt == "nexml" and rng.random() < 0.5:
         wkw["markup_as_sequences"] = True
-    if fmt == "nexus" and rng.random() < 0.2:
-        wkw["preserve_spaces"] = True
-    info = {"namespaces": nns, "suppress_block_titles": sbt, "writer": dict(wkw), "nslabels": desc["nslabels"],
-            "blocks": [(k, t) for k, t, _, _ in desc["matrices"]], "treelists": [k for k, _, _ in desc["trees"]]}
+    if fmt == "nexus":
+        r = rng.random()
+        if r < 0.2:
+            wkw["preserve_spaces"] = True
+        elif r < 0.35:
+            wkw.update({"unquoted_underscores": True, "preserve_spaces": True})
+            rkw["preserve_underscores"] = True
+        elif r < 0.5 and nns == 1 and sbt == "unset" and len(desc["matrices"]) == 1:
+            wkw["simple"] = True          # (documented: "a single DATA block" - one matrix)
+    io = rng.choice(["string", "string", "string", "path", "file", "read"])
+    if nns == 1 and rng.random() < 0.2:
+        rkw["taxon_namespace"] = dp().TaxonNamespace()
+    info = {"namespaces": nns, "suppress_block_titles": sbt, "writer": dict(wkw), "nslabels": desc["nslabels"], "io": io,
+            "blocks": [(k, t) for k, t, _, _ in desc["matrices"]], "treelists": [k for k, _, _ in desc["trees"]],
+            "reader": sorted(rkw)}
     ctx.nontrivial(("dataset", fmt, nns, sbt, core.short_hash(desc)))
-    S.reset()
-    text = write_obj(ctx, ds, fmt, wkw, "dataset", info)
-    if text is None:
-        return
-    try:
-        ds2 = dp().DataSet.get(data=text, schema=fmt)
-    except core.CaseTimeout:
-        raise
-    except Exception as e:
-        ctx.ev("dataset-block-checked")
-        detail = {"error": core.exc_brief(e), "info": info, "text": text[:2000]}
-        all_labels = [l for ls in desc["ns"] for l in ls] + [x for x in desc["nslabels"] if x]
-        if fmt == "nexus" and type(e).__name__ == "LinkRequiredError" and sbt == "False" and nns >= 2 \
-                and "TITLE" not in text.upper().replace("'", ""):
-            ctx.violation(K_SBT,
-                          "suppress_block_titles=False (documented: always write TITLE) wrote no TITLE/LINK for %d "
-                          "namespaces; the reader cannot attach the blocks" % nns, detail)
-        elif fmt == "nexml" and type(e).__name__ == "ParseError" and any(c in l for l in all_labels for c in '"<&'):
-            ctx.violation(K_JSON,
-                          "NeXML written by the library is not well-formed XML", detail)
-        elif fmt == "nexus" and ";" in all_labels:
-            ctx.violation(K_SEMI, "label ';' taken for the end of a statement (%s)"
-                          % core.exc_brief(e), detail)
-        else:
-            ctx.unexpected("dataset-readback:%s" % fmt, e, detail)
-        return
-    check_dataset(ctx, S, ds2, desc, fmt, "dataset-readback", info, text)
+    ds2 = dataset_readback(ctx, S, ds, desc, fmt, wkw, rkw, info, tmp, io)
+    if ds2 is not None and rng.random() < 0.35:
+        # format conversion of the data set that was read: NEXUS -> NeXML (-> NEXUS) / NeXML -> NEXUS (-> NeXML)
+        cur, f = ds2, fmt
+        for step in range(rng.choice([1, 1, 2])):
+            f = "nexml" if f == "nexus" else "nexus"
+            if f == "nexml" and any(t == "nucleotide" for _, t, _, _ in desc["matrices"]):
+                ctx.note("dataset-chain-not-applicable(nucleotide-matrix-has-no-NeXML-type)")
+                break
+            ctx.ev("dataset-chain-step-checked")
+            w2 = {"markup_as_sequences": True} if (f == "nexml" and rng.random() < 0.5) else {}
+            cur = dataset_readback(ctx, S, cur, desc, f, w2, {}, dict(info, chain_step=step + 1, chain_from=fmt, writer=w2,
+                                                                      taxa_section_lost=bool(wkw.get("simple"))),
+                                   tmp, "string", type_lost=True)
+            if cur is None:
+                break
     if case.get("i", 9) < 2:
         ctx.sample({"kind": "dataset", "fmt": fmt, "namespaces": desc["ns"], "suppress_block_titles": sbt,
                     "matrices": [(k, t) for k, t, _, _ in desc["matrices"]]})
@@ -1171,7 +1968,7 @@ def do_cli(ctx, rng, S, tmp, dtype, infmt, outfmt, dims, subproc=False, lstyle=N
             lstyle = rng.choice(["simple", "hostile-xmlsafe"])
         else:
             lstyle = rng.choice(["simple", "singlespace"])
-    labels = U.gen_labels(rng, dims[0], lstyle, xmlsafe="nexml" in (infmt, outfmt))
+    labels = U.gen_labels(rng, dims[0], lstyle, xmlsafe="nexml" in (infmt, outfmt), long_p=0 if strict else 0.05)
     rows = U.gen_rows(rng, dtype, dims[0], dims[1], pick_style(rng, dtype), alphabet)
     m, sa = from_dict(dtype, labels, rows, alphabet)
     model = check_construct(ctx, m, U.expected_model(dtype, labels, rows, alphabet), dtype, alphabet, "from_dict", True)
@@ -1313,7 +2110,7 @@ def run_authored(case, ctx, rng, S, tmp):
         except core.CaseTimeout:
             raise
         except Exception as e:
-            if ";" in labels:
+            if ";" in labels and is_parse_error(e):
                 ctx.violation(K_SEMI, "quoted label ';' taken for the end of the statement (%s)" % core.exc_brief(e),
                               {"text": text[:800]})
                 return
@@ -1322,8 +2119,11 @@ def run_authored(case, ctx, rng, S, tmp):
                           {"text": text[:1500]})
             return
         got = extract(m)
-        diff = U.compare_models(exp, got, dtype, alphabet)
-        if diff is not None and ";" in labels and diff[0] != "cell":
+        cmp_got, n_equiv = U.accept_equivalent_multistates(exp, got, dtype, alphabet)
+        if n_equiv:
+            ctx.note("token-{..}-parsed-to-an-equivalent-state-without-symbol(accepted)")
+        diff = U.compare_models(exp, cmp_got, dtype, alphabet)
+        if diff is not None and diff[0] == "row-count" and semi_signature(labels, [r[0] for r in got]):
             ctx.violation(K_SEMI, "quoted label ';' taken for the end of the statement", {"diff": diff[2], "text": text[:800]})
             return
         if diff is not None:
@@ -1358,6 +2158,11 @@ def authored_multiblock_nexus(ctx, rng, S):
         layout = rng.choice(["interleave", "wrap", "plain"])
         o = {"simple": False, "interleave": 0, "wrap": 0, "matchchar": rng.random() < 0.2, "title": "blk%d" % k,
              "comments": False}
+        if dtype != "continuous" and rng.random() < 0.3:
+            # MISSING / GAP declared in some blocks only: a block without the terms has the format's defaults, whatever an
+            # earlier block declared ('?' missing; no gap symbol, so the rows of such a block use none)
+            rows = [["?" if c == "-" else c for c in r] for r in rows]
+            o["declare"] = False
         if layout == "interleave":
             o["interleave"] = rng.randint(1, ncols - 1)
         elif layout == "wrap":
@@ -1420,7 +2225,8 @@ def authored_multi_otus_nexml(ctx, rng, S):
         mats.append((nss[k][0], "m%d" % mi, alphabet, labels, rows))
         exps.append((k, U.expected_model(dtype, labels, rows, alphabet)))
     seqs = rng.random() < 0.5
-    text = U.emit_nexml(rng, dtype, nss, mats, seqs=seqs)
+    layout = U.gen_nexml_layout(rng, seqs)
+    text = U.emit_nexml(rng, dtype, nss, mats, seqs=seqs, layout=layout)
     ctx.ev("authored-parse-checked")
     ctx.nontrivial(("authored-otus", dtype, seqs, core.short_hash(text)))
     try:
@@ -1443,9 +2249,15 @@ def authored_multi_otus_nexml(ctx, rng, S):
                           "matrix naming otus %r attached to namespace %r" % (nss[k][2], nsl), {"text": text[:2500]})
             return
         diff = U.compare_models(exp, extract(m), dtype, alphabet)
+        mi = len(desc["matrices"])
+        if diff is not None and dtype == "continuous" and not seqs and layout.get("shuffle_cells") and U.compare_models(
+                U.rows_in_document_order(exp, layout.get("_cell_orders"), mi), extract(m), dtype, alphabet) is None:
+            ctx.violation(K_NEXML_CONT_ORDER, "continuous <cell> elements are stored in the order in which the row lists "
+                          "them; the column named by char= is ignored", {"diff": diff[2], "text": text[:2500]})
+            return
         if diff is not None:
             ctx.violation("parse-authored:nexml|%s|%s" % (diff[0], diff[1]), "matrix parsed from harness-written NeXML "
-                          "differs from the document", {"diff": diff[2], "text": text[:2500]})
+                          "differs from the document", {"diff": diff[2], "text": text[:2500], "layout": repr(layout)})
             return
         desc["matrices"].append((k, dtype, alphabet, exp))
     # the parsed data set has explicit column definitions: NeXML -> NeXML must now keep everything
@@ -1527,7 +2339,7 @@ def run_directed(case, ctx, rng, S, tmp):
         ctx.ev("authored-parse-checked")
         m = matrix_class(dtype).get(data=text, schema="nexus")
         got = extract(m)
-        diff = U.compare_models(exp, got, dtype, alphabet)
+        diff = U.compare_models(exp, U.accept_equivalent_multistates(exp, got, dtype, alphabet)[0], dtype, alphabet)
         if diff is not None:
             ctx.violation("parse-authored:nexus|multistate-token|%s|%s" % (diff[0], diff[1]),
                           "matrix parsed from {..}/(..) tokens differs from the document", {"diff": diff[2], "text": text})
@@ -1543,26 +2355,33 @@ def run_directed(case, ctx, rng, S, tmp):
         # matrix written to NeXML afterwards in the same process defines that state with symbol "None" and cannot be read back.
         # (the harness undoes such additions after every case - see restore_global_alphabets - so that cases stay independent;
         # this case is where their effect is judged)
-        m1 = d.DnaCharacterMatrix.from_dict({"a": "ACGT", "b": "AC-T"})
-        model1 = extract(m1)
-        before = m1.as_string("nexml")
-        nx = "#NEXUS\nbegin data; dimensions ntax=2 nchar=3; format datatype=dna; matrix\nx A(CT)G\ny AC{AG}\n; end;\n"
-        d.DnaCharacterMatrix.get(data=nx, schema="nexus")
-        ctx.ev("roundtrip-checked")
-        after = m1.as_string("nexml")
-        try:
-            m3 = d.DnaCharacterMatrix.get(data=after, schema="nexml")
-            ok = U.compare_models(model1, extract(m3), "dna", None) is None
-            why = "matrix differs after the round trip"
-        except core.CaseTimeout:
-            raise
-        except Exception as e:
-            ok, why = False, core.exc_brief(e)
-        if not ok:
-            ctx.violation("history:nexml|unrelated-matrix-unreadable-after-a-read-added-symbol-less-state-to-the-global-alphabet",
-                          "a DNA matrix that round-trips through NeXML stops doing so after another DNA matrix containing '(CT)' "
-                          "was read from NEXUS in the same process: %s" % why,
-                          {"nexml_changed": before != after})
+        # (every data type with a library-wide alphabet that NeXML knows: the mechanism is the same, one key)
+        for dtype, seqs, nx_type, rows in (("dna", ("ACGT", "AC-T"), "dna", ("A(CT)G", "AC{AG}")),
+                                           ("rna", ("ACGU", "AC-U"), "rna", ("A(CU)G", "AC{AG}")),
+                                           ("protein", ("ACDE", "AC-E"), "protein", ("A(CD)E", "AC{AE}"))):
+            cls = matrix_class(dtype)
+            m1 = cls.from_dict({"a": seqs[0], "b": seqs[1]})
+            model1 = extract(m1)
+            before = m1.as_string("nexml")
+            nx = "#NEXUS\nbegin data; dimensions ntax=2 nchar=3; format datatype=%s; matrix\nx %s\ny %s\n; end;\n" % (
+                nx_type, rows[0], rows[1])
+            cls.get(data=nx, schema="nexus")
+            ctx.ev("roundtrip-checked")
+            after = m1.as_string("nexml")
+            try:
+                m3 = cls.get(data=after, schema="nexml")
+                ok = U.compare_models(model1, extract(m3), dtype, None) is None
+                why = "matrix differs after the round trip"
+            except core.CaseTimeout:
+                raise
+            except Exception as e:
+                ok, why = False, core.exc_brief(e)
+            if not ok:
+                ctx.violation("history:nexml|unrelated-matrix-unreadable-after-a-read-added-symbol-less-state-to-the-global-alphabet",
+                              "a %s matrix that round-trips through NeXML stops doing so after another %s matrix containing '(..)' "
+                              "was read from NEXUS in the same process: %s" % (dtype, dtype, why),
+                              {"nexml_changed": before != after, "type": dtype})
+            restore_global_alphabets(ctx)
     elif name == "standard-concatenated-nexml":
         # witness of the recorded concatenate() finding: cells of the result are state objects of the source alphabets
         rows = [list("0123456"), list("6543210"), list("01?-345")]
@@ -1641,6 +2460,93 @@ def run_directed(case, ctx, rng, S, tmp):
         for n in (69, 70, 71, 140, 141):
             rows = U.gen_rows(rng, "protein", 2, n, "full")
             rt_fixed(ctx, rng, S, "protein", ["p1", "p2"], rows, "fasta", "default", name=name)
+    elif name == "phylip-interleaved-into-namespace":
+        # reader option taxon_namespace= crossed with interleaved PHYLIP (same / re-ordered / larger / empty namespace)
+        labels, rows = ["a", "b", "c"], [list("ACGTAC"), list("AC-TGG"), list("TTTTTT")]
+        for variant in ("relaxed_il", "reflow_il", "strict_il", "s2u_il"):
+            for mode in ("same", "superset", "empty"):
+                m, sa = from_dict("dna", labels, rows)
+                model = extract(m)
+                ctx.nontrivial(sig_of("directed:" + name, "dna", "phylip", variant, mode, model))
+                roundtrip(ctx, rng, S, m, sa, model, "dna", None, "phylip", variant, info={"directed": name}, tmp=tmp,
+                          rns=mode, io="string")
+    elif name == "parsed-then-row-added":
+        # object history: parsed (explicit columns) -> one more row through the public API -> written again
+        for src in ("nexml", "nexus", "phylip", "fasta"):
+            for dtype, rows, extra in (("dna", [list("ACGT"), list("AC-T")], list("GGNA")),
+                                       ("continuous", [[1.0, 2.5, -3.0], [0.5, 4.0, 8.0]], [7.0, 0.25, 1.5])):
+                if not U.SUPPORT[src].get(dtype):
+                    continue
+                for fmt, variant in (("nexml", "cells"), ("nexml", "seqs"), ("nexus", "default")):
+                    built = build_matrix(ctx, random.Random(3), dtype, ["a", "b"], rows, None, "parsed_" + src)
+                    if built is None:
+                        continue
+                    m = built[0]
+                    t = m.taxon_namespace.new_taxon("c")
+                    m.new_sequence(t, values_for(m, dtype, extra))
+                    want = U.expected_model(dtype, ["a", "b", "c"], rows + [extra])
+                    model = check_construct(ctx, m, want, dtype, None, "post-edit:add-row-new_sequence", True)
+                    ctx.ev("post-edit-checked")
+                    ctx.nontrivial(sig_of("directed:" + name, dtype, fmt, variant, src, model))
+                    roundtrip(ctx, rng, S, m, None, model, dtype, None, fmt, variant,
+                              info={"directed": name, "route": "parsed_" + src, "edits": ["add-row-new_sequence"]}, tmp=tmp,
+                              rns=None, io="string")
+    elif name == "nexml-cells-out-of-column-order":
+        for dtype, rows in (("continuous", [[1.0, 2.0, 3.0], [4.0, 5.0, 6.0]]), ("dna", [list("ACG"), list("TTA")]),
+                            ("standard", [list("012"), list("2?-")])):
+            for k in range(3):
+                r2 = random.Random(k)
+                layout = {"shuffle_cells": True, "scramble_ids": bool(k % 2)}
+                text = U.emit_nexml(r2, dtype, [("ns0", None, ["a", "b"])], [("ns0", "m", "digits" if dtype == "standard"
+                                                                                else None, ["a", "b"], rows)], layout=layout)
+                ctx.ev("authored-parse-checked")
+                m = matrix_class(dtype).get(data=text, schema="nexml")
+                exp = U.expected_model(dtype, ["a", "b"], rows, None)
+                got = extract(m)
+                diff = U.compare_models(exp, got, dtype, None)
+                if diff is None:
+                    continue
+                if dtype == "continuous" and U.compare_models(U.rows_in_document_order(exp, layout.get("_cell_orders"), 0),
+                                                              got, dtype, None) is None:
+                    ctx.violation(K_NEXML_CONT_ORDER, "continuous <cell> elements are stored in the order in which the row "
+                                  "lists them; the column named by char= is ignored", {"diff": diff[2], "text": text})
+                else:
+                    ctx.violation("parse-authored:nexml|%s|%s" % (diff[0], diff[1]), "matrix parsed from harness-written "
+                                  "NeXML differs from the document", {"diff": diff[2], "text": text})
+    elif name == "block-titles-differing-in-case":
+        for labs in (["taxa", "TAXA"], ["Set one", "set ONE", "x"], ["n", "n", "N"]):
+            ds = d.DataSet()
+            desc = {"ns": [], "nslabels": [], "matrices": [], "trees": [], "titles": {"ns": list(labs), "m": [], "t": []}}
+            for k, lab in enumerate(labs):
+                labels = ["s%d_%d" % (k, j) for j in range(2 + k)]
+                ns = d.TaxonNamespace(labels, label=lab)
+                ds.add_taxon_namespace(ns)
+                m, _ = from_dict("dna", labels, [list("ACGT")] * len(labels), taxon_namespace=ns)
+                ds.add_char_matrix(m)
+                desc["ns"].append(labels)
+                desc["nslabels"].append(lab)
+                desc["matrices"].append((k, "dna", None, extract(m)))
+            for fmt in ("nexus", "nexml"):
+                ctx.nontrivial(("directed:" + name, fmt, labs))
+                dataset_readback(ctx, S, ds, desc, fmt, {}, {}, {"directed": name, "nslabels": labs, "namespaces": len(labs),
+                                                                "suppress_block_titles": "unset"}, tmp)
+    elif name == "annotated-objects":
+        for val in ("plain", 3.5, None, ["u", "v"], "q'r", "<&>", "a;b", "x[y]z", "x] y", "[open"):
+            for fmt, variant in (("nexus", "default"), ("nexus", "simple"), ("nexml", "cells"), ("nexml", "seqs"),
+                                 ("phylip", "relaxed"), ("fasta", "default")):
+                m, sa = from_dict("dna", ["a", "b"], [list("ACGT"), list("AC-T")])
+                for t in m.taxon_namespace:
+                    t.annotations.add_new("voucher", val)
+                m.annotations.add_new("src", val)
+                m.taxon_namespace.annotations.add_new("src", val)
+                m.comments.append("a comment")
+                model = extract(m)
+                ctx.ev("decorated-matrix-written")
+                ctx.nontrivial(sig_of("directed:" + name, "dna", fmt, variant, repr(val), model))
+                info = {"directed": name, "decorated": True, "value": repr(val)}
+                if any(unbalanced_brackets(x) for x in (val if isinstance(val, list) else [val])):
+                    info["decor_unbalanced"] = True
+                roundtrip(ctx, rng, S, m, sa, model, "dna", None, fmt, variant, info=info, tmp=tmp, rns=None, io="string")
     else:
         raise core.HarnessBug("unknown directed case %r" % name)
 
@@ -1677,6 +2583,7 @@ def _fixed_multiblock(ctx, S, text, declared, exps, dtype):
 def run_case(case, ctx):
     rng = random.Random("%s/%s" % (case["seed"], sorted(case.items())))
     S = State()
+    FASTA_WIDTHS[0] = rng.choice([1, 2, 3, 7, 10, 60, 69, 70, 71, 80, 1000])
     _globals()          # snapshot of the library's global alphabets before this case can touch them
     tmp = tempfile.mkdtemp(prefix="vf-c09-")
     import warnings
